@@ -12,1658 +12,1658 @@ Definition show_fres (r : fres) : string :=
   end.
 Definition check (rs : list rune) : string := digest (show_fres (format_res rs)).
 Definition full (rs : list rune) : string := show_fres (format_res rs).
-Eval vm_compute in ("<<<M434>>>" ++ check (runes_of_ascii "  packet u { repeat Packet
-    `
-` , string	x @calculatedFrom( ""x y"" )
-`say ""hi""` , @tag( 42) repeat
-stringy
-, match len	as
-    /// triple
-    u {
-[7 ,""it's""// " ++ [27880; 37322]%N ++ runes_of_ascii "
-, 10 ,""a\\"" , 0, ""1""
-] :float ,
-    ""a	b""
-: Foo , }
-// `tick` ""quote"" 'q'
-// c
-, float ,repeat calculatedFrom
-{ uint64
-    body
-,
-    char[] uint8x
-, int32 len ,f32a
-@calculatedFrom( """ ++ [28040; 24687]%N ++ runes_of_ascii """
-)
-, }	, @leftPad ( /// triple
-'\x00'
-    )
-    string
-    body , match// " ++ [128512]%N ++ runes_of_ascii " emoji
-msg_type as
-    As	{	[ """ ++ [128512]%N ++ runes_of_ascii """ ,
-    // packet A { u8 x, }
-    ""abc""
-// @lengthOf(
-/// triple
-]
-    : msg_type // @lengthOf(
-, [0123456789
-    // trailing space 
-    ,  10 ]:
-A, ""1"": Foo , 7:
-    string_ ,	""`tick`"" :	string_ 007	: int, }
-,
+Eval vm_compute in ("<<<M3660>>>" ++ check (runes_of_ascii "options {
+    ArrayPrefixLenType = u16;
+    FixedStringPadFromLeft = true;
+    JavaPackage = ""com.example.msg"";
+    GoPackage = ""msg"";
+    GoModule = ""example.com/msg"";
 }
-    packet BodyLength
-    {// trailing space 
-match crc as Pad// `tick` ""quote"" 'q'
-{
-    [0123456789 , ""\n"" , ""x y"" ,
-""\n"" , 7
-    , ""1"" ] : // @lengthOf(
-u8x
-, [ 00
-, ""abc"", """ ++ [128512]%N ++ runes_of_ascii """, ""a\\"" ,65535 ]:// " ++ [128512]%N ++ runes_of_ascii " emoji
-pack ,	},
-    @tag( 0 ) leftPad { char[]
-    options1 @lengthOf(	asx
-// a // b
-// " ++ [128512]%N ++ runes_of_ascii " emoji
-) ,char[ 0
-] /// triple
-As `crlf
-line` ,	i64  crc ,
+MetaData Meta {
+    u32 SeqNum `sequence number
+more`,
+    char[8] Symbol `symbol
+more`,
+    zchar[5] ZSym `z symbol
+more`,
+    string Note,
+    Symbol AltSymbol `alias of symbol`,
+    f64 Price,
 }
-,
-float64 asx , @leftPad ( // `tick` ""quote"" 'q'
-' ' ) T@calculatedFrom( ""abc""),  }packet As {
-    // " ++ [27880; 37322]%N ++ runes_of_ascii "
-    string i64_ @calculatedFrom( ""\n"")
-    ,@lengthOf( i8i8 )  @lengthOf( asx ) @rightPad('0'/// triple
-)repeat uint64	MetaDataX,tag zchar /// triple
-, @calculatedFrom( ""// no comment"") char[]u @calculatedFrom(// packet A { u8 x, }
-""a\\""
-// " ++ [27880; 37322]%N ++ runes_of_ascii "
-//x
-) `u8 x,`	, // trailing space 
-@calculatedFrom(""" ++ [233]%N ++ runes_of_ascii "t" ++ [233]%N ++ runes_of_ascii """ ) // @lengthOf(
-char[//
-10 ]
-repeatCount `
-` , } packet f32a {
-    Header  o ,
-    } packet chars { @rightPad( '0' ) match
-u128  as u8x {3 : i8i8
-// `tick` ""quote"" 'q'
-//	t
-,
-    255: charz [ 4294967296 , ""x y"",""" ++ [233]%N ++ runes_of_ascii "t" ++ [233]%N ++ runes_of_ascii """ ,
-    ""{,}"" ]	:
-x	,
-    65535 : len }
-, @lengthOf( u8x // " ++ [128512]%N ++ runes_of_ascii " emoji
-)i16 Foo@lengthOf(  u8x // packet A { u8 x, }
-),
-@lengthOf( _x)@leftPad ( ' ' )
-char[
-    // `tick` ""quote"" 'q'
-    255  ]
-tag
-    @calculatedFrom( ""it's"" )
-// trailing space 
-//
-, @calculatedFrom("""" ) float32 i64_ `line1
-line2` , repeat string
-    roots,string // trailing space 
-float, @lengthOf( Header ) @tag( 007
-    ) @calculatedFrom( ""abc"" ) match
-zchar  as
-u8x { ""a	b"" : charz , 0 :	len ,
-} ,zchar[ 00]MetaDataX
-    @calculatedFrom(
-    // c
-    ""a\""b""
-) `two words` ,} // `tick` ""quote"" 'q'")).
-Eval vm_compute in ("<<<M3628>>>" ++ check (runes_of_ascii "// top
-options // c0
-{ // c1
-LittleEndian // c2a
-  // c2b
-=
-    // c3
-false // c4
-; // c5
-StringPrefixLenType // c6
-= u8
-    // c8
-; ArrayPrefixLenType
-    // c10
-= u8 ; FixedStringPadFromLeft =
-    // c15
-true ;
-    // c17
-FixedStringPadChar = // c19a
-  // c19b
-' ' // c20
-; // c21a
-  // c21b
+packet Inner {
+    u8 a,
+    i16 b,
+    string c,
 }
-    // c22
-packet
-    // c23
-Trade { // c25
-zchar[ // c26a
-  // c26b
-2 ]
-    // c28
-Side2 // c29a
-  // c29b
-, // c30
-i8 // c31
-seqNo , // c33
-} packet // c35
-Party // c36
-{
-    // c37
-uint32 // c38a
-  // c38b
-price ,
-    // c40
+packet Inner2 {
+    u8 a2,
+    char[3] c2,
 }
-    // c41
-packet Ack { // c44a
-  // c44b
-@rightPad // c45a
-  // c45b
-( // c46
-'\x00'
-    // c47
-) char[ // c49
-6 // c50a
-  // c50b
-] // c51a
-  // c51b
-x
-    // c52
-, // c53
-repeat char[ // c55
-4 ] // c57
-Flags // c58a
-  // c58b
-,
-    // c59
-zchar[
-    // c60
-9
-    // c61
-] // c62
-f1 // c63
-, // c64a
-  // c64b
-}
-    // c65
-packet Cancel // c67a
-  // c67b
-{
-    // c68
-Ack // c69a
-  // c69b
-, // c70a
-  // c70b
-} // c71a
-  // c71b
-packet // c72
-Heartbeat // c73
-{ string Px
-    // c76
-,
-    // c77
-string
-    // c78
-Acct
-    // c79
-,
-    // c80
-f64
-    // c81
-Side2 , // c83
-InQty24 // c84
-{ // c85a
-  // c85b
-i16 // c86a
-  // c86b
-seqNo // c87
-, repeat
-    // c89
-i32
-    // c90
-Flags // c91
-,
-    // c92
-} // c93a
-  // c93b
-, // c94
-} root // c96a
-  // c96b
-packet // c97
-Logon
-    // c98
-{ // c99a
-  // c99b
-Trade // c100a
-  // c100b
-, i64
-    // c102
-venue // c103a
-  // c103b
-, // c104
-u32 x
-    // c106
-, // c107
-u8
-    // c108
-seqNo // c109a
-  // c109b
-, // c110
-match
-    // c111
-seqNo as Body // c114
-{ [ 1 , 164 // c119a
-  // c119b
-] // c120a
-  // c120b
-:
-    // c121
-Ack ,
-    // c123
-31 // c124
-: Cancel // c126
-, // c127a
-  // c127b
-23 // c128
-: // c129a
-  // c129b
-Heartbeat // c130
-, 64 : // c133
-Party // c134
-, // c135a
-  // c135b
-}
-    // c136
-, } // c138a
-  // c138b
-")).
-Eval vm_compute in ("<<<M5>>>" ++ check (runes_of_ascii "root
-packet zchar {
-repeatCount // a // b
-@lengthOf(  asx )	, match
-string_ as o// @lengthOf(
-{ 7 :packetx
-    ,
-    7 : Pad},// packet A { u8 x, }
-zchar[ 65535 ]
-    T
-@calculatedFrom( /// triple
-""" ++ [128512]%N ++ runes_of_ascii """
-)
-    , tag @lengthOf( // " ++ [27880; 37322]%N ++ runes_of_ascii "
-u ) `crlf
-line`,
-    @calculatedFrom(
-    // " ++ [128512]%N ++ runes_of_ascii " emoji
-    """" ) _x	@calculatedFrom(// @lengthOf(
-""a	b"" )
-`// not a comment` ,match Z9_ as float { 0123456789 : calculatedFrom, ""{,}"":u //	t
-} , @leftPad( ) @tag( 255	) @lengthOf(i8i8
-    ) match
-tag as
-    trueish { 4294967296:	uint8x
-    ,[ //x
-65535 ] : u8x ,	10 : i64_,
-""""
-    :metadata
-    } , int64 T , } root packet len { @tag(	0) Logon ,
-@tag(255) repeat u64 packetx `it's`
-    , @tag(
-    4294967296 )
-zchar[007 ]repeatCount `a\` , char[ 4294967296
-]
-// " ++ [128512]%N ++ runes_of_ascii " emoji
-// packet A { u8 x, }
-asx @calculatedFrom(
-""it's"" ), }	root packet asx {	uint16 options1@lengthOf(
-    matchKey ) `it's`	, }	root //
-packet
-Logon{ @lengthOf( asx) @calculatedFrom(  ""packet""
-)	Z9_ @calculatedFrom(// " ++ [128512]%N ++ runes_of_ascii " emoji
-""" ++ [28040; 24687]%N ++ runes_of_ascii """)
-    ,
-@tag(	007
-    /// triple
-    )
-zchar[0123456789 ] i64_ ,
-msg_type`line1
-line2` , repeat zchar[
-007 ]Pad
-`
-`	, falsey {
-    chars lengthOf ``
-    ,	match Header as lengthOf
-    {
-""" ++ [233]%N ++ runes_of_ascii "t" ++ [233]%N ++ runes_of_ascii """	: falsey 42:
-uint8x , [ 007
-,""abc""
-    ,
-// c
-// a // b
-""abc"" ,""a\\""  ,
-65535 // c
-,""a\""b"" ,
-42, ""{,}"" ]:charz } , int64 //x
-Foo // c
-, Z9_@lengthOf( int )`it's`
-, }
-,
-    @rightPad
-    ( ) // trailing space 
-string As @calculatedFrom(""" ++ [28040; 24687]%N ++ runes_of_ascii """ ) ,
-    // c
-    match matchKey as repeatCount{
-4294967296 :msg_type	, """ ++ [28040; 24687]%N ++ runes_of_ascii """ : zchar 3  : u8x , """":	asx
-// trailing space 
-// `tick` ""quote"" 'q'
-, } ,}
-")).
-Eval vm_compute in ("<<<M4410>>>" ++ check (runes_of_ascii "packet Packet {
-    @tag(10)
-    match trueish as x_y_z {
-        ""it's"" : i8i8,
-        // " ++ [27880; 37322]%N ++ runes_of_ascii "
-        // " ++ [27880; 37322]%N ++ runes_of_ascii "
-        00 : asx,
-    },
-    zchar[007] u @calculatedFrom(""`tick`"") `line1
-    line2`,
-    /// triple
-    chars @calculatedFrom(""""),
-    match zchar as _x {
-        00 : rootA,
-        ""\" ++ [233]%N ++ runes_of_ascii """ : metadata,
-    },
-    body {
-        u32 u128 @calculatedFrom(""{,}""),
-        repeat char[4294967296] u `say ""hi""`,
-    },
-    @lengthOf(stringy)
-    float {
-        string leftPad,
-        repeat uint16 Pad,
-        char u,// " ++ [128512]%N ++ runes_of_ascii " emoji
-        i8i8 u,
-    },
-    match o as x {
-        [
-            10, 1, 00, 0, 255,
-            ""`tick`"", ""1""
-        ] : uint8x,
-        0 : T,
-        //
-        1 : trueish,
-        1 : rootA,
-    },
-    zchar[255] T `line1
-    line2`,
-    @leftPad('0')
-    @leftPad('\x00')
-    @tag(007)
-    match T as u8x {
-        [007] : A,
-        0 : x,
-        [4294967296] : charz,
-        """" : As,
-        7 : int,
-        65535 : x_y_z,
-    },// trailing space 
-}
-
-options {
-    /// triple
-    x = '\x00';// packet A { u8 x, }
-}
-
-// " ++ [128512]%N ++ runes_of_ascii " emoji
-root packet i64_ {
-    @tag(4294967296)
-    falsey options1,
-    uint64 Pad `doc`,
-    @tag(65535)
-    char Logon @calculatedFrom(""""),
-    char[0] MetaDataX `a\`,//
-    metadata f32a `tab	here`,
-    stringy Header,
-    @leftPad()
-    @calculatedFrom(""\" ++ [233]%N ++ runes_of_ascii """)
-    @calculatedFrom(""" ++ [128512]%N ++ runes_of_ascii """)
-    char[] body @calculatedFrom(""a	b"") `a\`,
-}")).
-Eval vm_compute in ("<<<M874>>>" ++ check (runes_of_ascii "// `tick` ""quote"" 'q'
-packet Pad
-    { pack// " ++ [27880; 37322]%N ++ runes_of_ascii "
-{ char repeatCount
-    @lengthOf( a1 )
-    ,int16 Pad ,
-    int16
-    calculatedFrom ,
-    } , @lengthOf( tag)
-uint16 repeatCount
-    ,	@tag( 10) char[ 007 ] trueish
-// a // b
-// @lengthOf(
-, Header// packet A { u8 x, }
-@calculatedFrom( ""\n"" // " ++ [128512]%N ++ runes_of_ascii " emoji
-)
-    `
-`
-,
-    i8i8 a1
-`" ++ [28040; 24687; 31867; 22411]%N ++ runes_of_ascii "` , u32 x @calculatedFrom( ""abc"") , @lengthOf( crc )
-//x
-// " ++ [27880; 37322]%N ++ runes_of_ascii "
-repeat
-    char[ 3
-] charz`crlf
-line` , }MetaData MetaDataX{x As , } //	t
-root // " ++ [128512]%N ++ runes_of_ascii " emoji
-packet
-    chars{ }
-packet	o { @lengthOf(
-msg_type )
-    /// triple
-    repeat uint64 float , a1 , repeatCount { char[
-// `tick` ""quote"" 'q'
-//
-00 ] u8x @lengthOf(Header ) `" ++ [28040; 24687; 31867; 22411]%N ++ runes_of_ascii "` ,len
-    // trailing space 
-    @lengthOf( //
-options1 )
-,x @lengthOf( //	t
-pack
-) `two words`
-    , char[] leftPad  `" ++ [233]%N ++ runes_of_ascii "` ,}// " ++ [27880; 37322]%N ++ runes_of_ascii "
-,
-char[] stringy//	t
-@lengthOf(	msg_type ) `u8 x,`// packet A { u8 x, }
-, @calculatedFrom(""it's"" ) Header A
-,char[
-1// `tick` ""quote"" 'q'
-] f32a  ,
-}root
-    packet packetx {// a // b
-repeat
-    zchar[
-007 ] u8x ,	@leftPad// @lengthOf(
-('0'
-    )
-f64 stringy @lengthOf(
-lengthOf )
-,	match T as o {
-65535
-    // @lengthOf(
-    : tag ,
-255: o
-    """" : stringy ,
-} ,@lengthOf( calculatedFrom ) @leftPad	(
-'0' ) @lengthOf( u ) f64 Logon @lengthOf(
-    _x) , } //	t")).
-Eval vm_compute in ("<<<M291>>>" ++ check (runes_of_ascii "//	t
-root
-packet
-packetx { @lengthOf( BodyLength )zchar[ // " ++ [27880; 37322]%N ++ runes_of_ascii "
-00 ]	uint8x	@lengthOf(
-    i8i8)`tab	here` , @lengthOf( x_y_z )@leftPad ( '0'
-)
-@lengthOf( Header )
-f32 pack @calculatedFrom( ""a\\""),
-@calculatedFrom(
-""`tick`"")
-//x
-// " ++ [27880; 37322]%N ++ runes_of_ascii "
-lengthOf// " ++ [128512]%N ++ runes_of_ascii " emoji
-MetaDataX ,@lengthOf( Packet ) lengthOf @calculatedFrom(
-""\n"" )
-    `doc`
-//	t
-//	t
-, @rightPad ( )	char[	0123456789	] float , @lengthOf(
-    options1 )
-//x
-//	t
-@tag(7
-    ) @tag(
-    007) crc int, chars @calculatedFrom(
-""" ++ [233]%N ++ runes_of_ascii "t" ++ [233]%N ++ runes_of_ascii """ )//x
-, @calculatedFrom(//x
-""CRC32"" )
-repeat char[] packetx `two words` , }
-packet T { }
-packet T {char[10
-] u128 ,
-    @lengthOf( calculatedFrom  )
-    chars
-    o
-,
-@calculatedFrom(""\n"" ) match// @lengthOf(
-pack  as Logon  {
-    [
-""// no comment"" , 255 , 42 , ""CRC32"", ""// no comment"" ] : asx
-""it's"" :msg_type	,
-    // `tick` ""quote"" 'q'
-    0123456789  : //	t
-msg_type
-    //	t
-    ,
-255  : //
-len
-,
-}
-    , match chars as int
-    { [ 00
-    , 42,42 ] : x
-    4294967296	: i64_, [""a	b""  ,  007// c
-, """ ++ [128512]%N ++ runes_of_ascii """ , ""// no comment""
-// @lengthOf(
-// trailing space 
-] :f32a, 42 : packetx }
-, /// triple
-crc	{a1 `" ++ [233]%N ++ runes_of_ascii "` , } ,@tag(
-3 )
-    /// triple
-    zchar[7 ]  o`
-`
-, }
-    packet roots{u64 i64_ ``,
-    }")).
-Eval vm_compute in ("<<<M1391>>>" ++ check (runes_of_ascii "options {
-	StringPrefixLenType = u16;
-	ArrayPrefixLenType = u16;
-}
-
-packet SampleBinary {
-	uint16 MsgType `" ++ [28040; 24687; 31867; 22411]%N ++ runes_of_ascii "`,
-	u16 BodyLenght @lengthOf(Body) `" ++ [28040; 24687; 20307; 38271; 24230]%N ++ runes_of_ascii "`,
-	match MsgType as Body {
-		1 : Logon,
-		2 : Logout,
-		3 : Heartbeat,
-		4 : RiskControlRequest,
-		5 : RiskControlResponse,
-	},
-		@calculatedFrom(""CRC32"")
-	u32 Ckecksum `" ++ [26657; 39564; 21644]%N ++ runes_of_ascii "`,
-}
-
 packet Logon {
-	 @leftPad('0')
-	char[10] UserName `" ++ [29992; 25143; 21517]%N ++ runes_of_ascii "`,
-	string Password `" ++ [23494; 30721]%N ++ runes_of_ascii "`,
-	uint64 ClientId `" ++ [23458; 25143; 31471]%N ++ runes_of_ascii "ID`,
-	u16 HeartbeatInterval `" ++ [24515; 36339; 38388; 38548]%N ++ runes_of_ascii "`,
+    u8 x,
+    string user,
+    repeat u16 codes,
 }
-
 packet Logout {
-	  @rightPad('0')
-	char[10] UserName `" ++ [29992; 25143; 21517]%N ++ runes_of_ascii "`,
-	uint64 ClientId `" ++ [23458; 25143; 31471]%N ++ runes_of_ascii "ID`,
+    u16 reason,
 }
-
-packet Heartbeat {
+packet Empty {
 }
-
-packet RiskControlRequest {
-	string UniqueOrderId `" ++ [21807; 19968; 35746; 21333; 21495]%N ++ runes_of_ascii "`,
-	char[16] ClOrdID `" ++ [23458; 25143; 35746; 21333; 21495]%N ++ runes_of_ascii "`,
-	char[3] MarketID `" ++ [24066; 22330]%N ++ runes_of_ascii "id`,
-	char[12] SecurityID `" ++ [35777; 21048; 20195; 30721]%N ++ runes_of_ascii "`,
-	char Side `" ++ [20080; 21334; 26041; 21521]%N ++ runes_of_ascii "`,
-	char OrderType `" ++ [35746; 21333; 31867; 22411]%N ++ runes_of_ascii "`,
-	u64 Price `" ++ [20215; 26684]%N ++ runes_of_ascii "`,
-	u32 Qty `" ++ [25968; 37327]%N ++ runes_of_ascii "`,
-	repeat string ExtraInfo `" ++ [38468; 21152; 20449; 24687]%N ++ runes_of_ascii "`,
-	repeat SubOrder {
-			char[16] ClOrdID `" ++ [23376; 35746; 21333; 21495]%N ++ runes_of_ascii "`,
-			u64 Price `" ++ [23376; 35746; 21333; 20215; 26684]%N ++ runes_of_ascii "`,
-			u32 Qty `" ++ [23376; 35746; 21333; 25968; 37327]%N ++ runes_of_ascii "`,
-		},
+root packet Msg {
+    u8 su8,
+    uint8 luint8,
+    u16 su16,
+    uint16 luint16,
+    u32 su32,
+    uint32 luint32,
+    u64 su64,
+    uint64 luint64,
+    i8 si8,
+    int8 lint8,
+    i16 si16,
+    int16 lint16,
+    i32 si32,
+    int32 lint32,
+    i64 si64,
+    int64 lint64,
+    f32 sf32,
+    float32 lfloat32,
+    f64 sf64,
+    float64 lfloat64,
+    char[6] fsplain,
+    @leftPad('0') char[4] fs0,
+    @rightPad('0') char[5] fs1,
+    @leftPad(' ') char[6] fs2,
+    @rightPad(' ') char[7] fs3,
+    @leftPad('\x00') char[8] fs4,
+    @rightPad('\x00') char[9] fs5,
+    @leftPad() char[10] fs6,
+    @rightPad() char[11] fs7,
+    zchar[7] fz,
+    @leftPad('0') zchar[3] fzl0,
+    string s1 `doc`,
+    char[] s2,
+    Inner,
+    Sub {
+        u8 q,
+        string w,
+        Deep {
+            u16 z,
+            repeat i32 zs,
+        },
+    },
+    repeat u8 ru8,
+    repeat u16 ru16,
+    repeat u32 ru32,
+    repeat u64 ru64,
+    repeat i8 ri8,
+    repeat i16 ri16,
+    repeat i32 ri32,
+    repeat i64 ri64,
+    repeat f32 rf32,
+    repeat f64 rf64,
+    repeat string rstr,
+    repeat char[] rstr2,
+    repeat char[3] rfs,
+    repeat zchar[3] rfz,
+    repeat Inner2,
+    repeat Grp {
+        u8 k,
+        char[2] v,
+    },
+    SeqNum,
+    SeqNum seq2,
+    repeat SeqNum seqs,
+    Symbol,
+    AltSymbol alt,
+    ZSym,
+    Note,
+    repeat Symbol syms,
+    Price px,
+    u16 MsgType,
+    u32 BodyLen @lengthOf(Body),
+    match MsgType as Body {
+        1 : Logon,
+        [2, 3] : Logout,
+        7 : Logon,
+        9 : Empty,
+    },
+    u32 Checksum @calculatedFrom(""CRC32""),
 }
-
-packet RiskControlResponse {
-	string UniqueOrderId `" ++ [21807; 19968; 35746; 21333; 21495]%N ++ runes_of_ascii "`,
-	i32 Status `" ++ [29366; 24577]%N ++ runes_of_ascii "`,
-	string Msg `" ++ [32467; 26524; 20449; 24687]%N ++ runes_of_ascii "`,
-	repeat Detail,
-}
-
-packet Detail {
-	string RuleName `" ++ [35268; 21017; 21517; 31216]%N ++ runes_of_ascii "`,
-	u16 Code `" ++ [21407; 22240; 20195; 30721]%N ++ runes_of_ascii "`,
-}")).
-Eval vm_compute in ("<<<M909>>>" ++ check (runes_of_ascii "options { f32a
-=
-007
-    ;body =""" ++ [128512]%N ++ runes_of_ascii """	i64_ // " ++ [27880; 37322]%N ++ runes_of_ascii "
-=zchar[ 0123456789
-]
-}
-options {
-    i8i8
-= // c
-""abc"" ; body = true T
-=
-float32} root packet MetaDataX
+")).
+Eval vm_compute in ("<<<M578>>>" ++ check (runes_of_ascii "packet u128 {
+@calculatedFrom(
+""" ++ [28040; 24687]%N ++ runes_of_ascii """ )
+stringy { match falsey
+as Z9_ { // @lengthOf(
+""packet"": float
     //	t
-    {	@rightPad
-    ( '\x00' )char[] // " ++ [128512]%N ++ runes_of_ascii " emoji
-matchKey ,
-    @calculatedFrom(""CRC32""
-) // c
-match
-int as
-options1 { """ ++ [233]%N ++ runes_of_ascii "t" ++ [233]%N ++ runes_of_ascii """ : calculatedFrom , } ,@tag(  7) char[
-    65535 ] packetx `" ++ [233]%N ++ runes_of_ascii "` , @calculatedFrom(
-    """ ++ [28040; 24687]%N ++ runes_of_ascii """) string
-    A  ,  repeat T{
-repeat tag
-`// not a comment`
-, } ,
-    // `tick` ""quote"" 'q'
-    @rightPad	( '0' ) @calculatedFrom( ""{,}"") Header
+    , } , match uint8x as x_y_z
+{ 3 :i64_ ,
+//
+// " ++ [128512]%N ++ runes_of_ascii " emoji
+""CRC32"" :float
+    , 007 : falsey ,  0123456789 : //x
+Packet , [
+    ""it's""
+// packet A { u8 x, }
+// " ++ [128512]%N ++ runes_of_ascii " emoji
+, ""\" ++ [233]%N ++ runes_of_ascii """ ] : calculatedFrom,}
+,uint16
+uint8x `it's`
+, repeat i8 repeatCount,} ,
+u8 string_
+,
+    // trailing space 
+    @lengthOf(
+    body ) @rightPad (
+    '\x00' ) zchar[ 65535 ] trueish @calculatedFrom(
+""`tick`"" ) , @rightPad ( ) charz @lengthOf(
+A) , MetaDataX,
+@tag(
+    3) char[ 3 ] x	`doc`
+,repeat
+    i8i8 {
+    string Z9_,  } ,
+} // @lengthOf(
+root packet chars
+    // " ++ [27880; 37322]%N ++ runes_of_ascii "
     {
-int8 A
-    `u8 x,`
-    , chars  { zchar
-{ metadata//	t
-metadata ,} ,zchar[ 00
-] Foo // " ++ [27880; 37322]%N ++ runes_of_ascii "
-, repeat lengthOf
-{ x	`line1
-line2` ,
-    repeat
-    // trailing space 
-    zchar[ 1
-    //x
-    ]
-trueish ,},
-match uint8x as As { 1 :u128
-, ""a\""b""	:i64_ 0 : string_,} ,
-} , }//
-,//	t
-repeat char float `say ""hi""`  ,
-// a // b
-//
-repeat
-    char[]x `say ""hi""`
-    , repeat char[]
+    string_ , u16
+trueish `
+` , float32 Pad
+@lengthOf(metadata )
+`" ++ [28040; 24687; 31867; 22411]%N ++ runes_of_ascii "`,repeatCount ,  @lengthOf( x )	char[]uint8x @lengthOf( T )// a // b
+`tab	here`	, A	{ char rootA // packet A { u8 x, }
+`
+` // a // b
+, int64 f32a
     //	t
-    A `{ , }` , Header @lengthOf( lengthOf ) , } root packet
-float { string_/// triple
-repeatCount ,
-repeat //x
-rootA x  ,  }
-// " ++ [128512]%N ++ runes_of_ascii " emoji
-")).
-Eval vm_compute in ("<<<M563>>>" ++ check (runes_of_ascii "packet
-// `tick` ""quote"" 'q'
-// `tick` ""quote"" 'q'
-trueish {
-    repeat packetx /// triple
-zchar , // " ++ [128512]%N ++ runes_of_ascii " emoji
-zchar[ 1
-]
-    /// triple
-    stringy ,
-    @lengthOf( u8x ) repeat
-    f32 Logon,
-repeat u8x {
-zchar[	007
-    ]crc
-@calculatedFrom( ""a\\"" ) ,}
-,@tag( 255
-) @calculatedFrom(
-""it's"" //	t
-)	@tag( 65535 )repeat x
-{
-    repeat u8x metadata ,
-zchar[
-    //
-    00 ]  stringy@lengthOf( float
-    )
-`two words` , }
-, @lengthOf( A ) @calculatedFrom( ""packet"" )@rightPad ( '0'  )	Header ,msg_type charz , // packet A { u8 x, }
-} packet x
-{ @calculatedFrom( """ ++ [128512]%N ++ runes_of_ascii """ )
-zchar[ 0123456789 ]A
-    // c
-    @calculatedFrom( ""a	b""
-    )
-, @calculatedFrom( // " ++ [128512]%N ++ runes_of_ascii " emoji
-""""
-) repeat BodyLength `
-` ,
-    }packet Foo{  char[
-    7 ] crc // " ++ [27880; 37322]%N ++ runes_of_ascii "
-@lengthOf(
-charz )
-    // @lengthOf(
     ,
-@lengthOf( float
-) charz ,repeat i8 Foo, uint64 leftPad /// triple
-`{ , }`
-    ,// `tick` ""quote"" 'q'
-falsey
-A,
-repeat u128 x_y_z `// not a comment`
+    Packet { repeat i16
+    Foo
+`it's` , /// triple
+zchar[65535 ]
+stringy
+    @calculatedFrom( ""1"" )`
+` , // trailing space 
+}  , int
     // " ++ [128512]%N ++ runes_of_ascii " emoji
-    ,/// triple
-Logon @calculatedFrom( ""a	b"" )	, }
-")).
-Eval vm_compute in ("<<<M62>>>" ++ check (runes_of_ascii "MetaData Packet { // `tick` ""quote"" 'q'
-Header
-// " ++ [27880; 37322]%N ++ runes_of_ascii "
-// c
-uint8x
-`{ , }`, x_y_z u8x `it's`
-// packet A { u8 x, }
-// packet A { u8 x, }
-,
-} // trailing space 
-root packet packetx { repeat char[]  packetx , string zchar@lengthOf( a1
-)	`tab	here`
-    // @lengthOf(
     ,
-match
-    string_ as float { ""a\""b""  : Logon , 00
-    :
-    Foo 42 : stringy	[ 255
-    , 0, ""a\\""] :f32a // @lengthOf(
-[7 ,	""`tick`""
-] : float , 0 : // c
-len //	t
-,} , @lengthOf( Header	)
-    //
-    len`doc`
-, repeat
-Pad { // " ++ [27880; 37322]%N ++ runes_of_ascii "
-repeat	Pad `it's`,// @lengthOf(
-char[ 65535
-    ]i64_
-    @calculatedFrom( //
-""1"" )
-    `a\` , crc
-    // `tick` ""quote"" 'q'
-    `two words` , match len
-// a // b
-/// triple
-as
-BodyLength { ""abc""
-    // " ++ [27880; 37322]%N ++ runes_of_ascii "
-    :a1, [ ""packet""
-    /// triple
-    ,
-    7
-    ]
-    : crc
-,
-    // c
-    3 :
-    asx , }	,	} ,
-int8 rootA @lengthOf(crc ),@lengthOf( chars)
-    // trailing space 
-    @tag( 7 ) @tag(7 ) repeat char[ 10 ] packetx	, }
-
-")).
-Eval vm_compute in ("<<<M512>>>" ++ check (runes_of_ascii "packet repeatCount{
-@lengthOf( uint8x)
-// @lengthOf(
-// c
-repeat  falsey options1 `" ++ [28040; 24687; 31867; 22411]%N ++ runes_of_ascii "`
-    // a // b
-    , @calculatedFrom(
-""a\""b"" )string A//
-,
-    @lengthOf(	metadata )  a1@calculatedFrom(
-""a\\""
-)`say ""hi""` ,  }
-packet leftPad {
-string msg_type `{ , }`,i8i8 @lengthOf( u8x // @lengthOf(
-) `// not a comment`
-, char matchKey	`" ++ [28040; 24687; 31867; 22411]%N ++ runes_of_ascii "` ,uint16
-    stringy `" ++ [233]%N ++ runes_of_ascii "` ,
-    zchar[ 0 ] uint8x  ,stringy
-@calculatedFrom(""x y""
+    } , // trailing space 
+charz
 // `tick` ""quote"" 'q'
-// `tick` ""quote"" 'q'
-)
-    `{ , }`  ,
-match
-u	as
-MetaDataX {10:
-body,}
-    // " ++ [27880; 37322]%N ++ runes_of_ascii "
-    ,
-// `tick` ""quote"" 'q'
-// packet A { u8 x, }
-@lengthOf( T  ) @lengthOf( uint8x ) match uint8x
 //	t
-// `tick` ""quote"" 'q'
-as //x
-stringy{ ""\n"" :
-    Logon// c
+metadata,
+@calculatedFrom( ""\" ++ [233]%N ++ runes_of_ascii """
+)
+match o
+as matchKey {	""abc""
+: zchar , // " ++ [27880; 37322]%N ++ runes_of_ascii "
+""CRC32"": As// packet A { u8 x, }
+""packet"": Packet// `tick` ""quote"" 'q'
 ,
-42 :
-Header , [	""{,}"" ,
-    7 ]
-:As ""CRC32"":	Header
-    // c
-    , // c
-0 : leftPad ,  } ,
-}// `tick` ""quote"" 'q'
-options
-{  packetx =false  ; lengthOf
-    =
-    """ ++ [128512]%N ++ runes_of_ascii """ tag
-    = char[] ; }
-")).
-Eval vm_compute in ("<<<M656>>>" ++ check (runes_of_ascii "MetaData
-    //
-    body
-    {u16 roots `say ""hi""` , char[ 65535]
-o
-,
-    uint32 Z9_
-, char trueish `crlf
-line`
+    ""x y"" :pack
+[0 , 10 , 00 ,  ""\n"",65535,""1"" ]:
+As // trailing space 
+, } /// triple
+, //
+}options
+{ } packet leftPad {@calculatedFrom( ""a\\""
+    ) @lengthOf(len
+    ) @tag(
+1)
+char[
+255] u8x,
+    @calculatedFrom( ""// no comment"" )
+    int32 //	t
+len@lengthOf( _x ) // " ++ [27880; 37322]%N ++ runes_of_ascii "
+,@calculatedFrom(
+""" ++ [28040; 24687]%N ++ runes_of_ascii """ ) repeat Logon int `" ++ [28040; 24687; 31867; 22411]%N ++ runes_of_ascii "`
+    ,
+    match As as
+packetx {
+    ""a	b"" : uint8x ,
+    // a // b
+    }
+, char[ 0
+    ] charz @lengthOf( i8i8) , chars
+metadata , @tag( 0123456789)
+//
+// trailing space 
+BodyLength // packet A { u8 x, }
 , }
-packet crc // packet A { u8 x, }
-{
-    u128 ,
-repeat char[]trueish ,	string	asx  @lengthOf( zchar) // c
-`crlf
-line` , int
-{ int
-    u//
+")).
+Eval vm_compute in ("<<<M939>>>" ++ check (runes_of_ascii "MetaData
+Logon {
+    string_ MetaDataX
+`
+` ,}root packet Pad
+{ asx
+@lengthOf(BodyLength )
 ,
 }
-,  @tag(10 )
-    // @lengthOf(
-    zchar[
-//x
-//x
-65535 ] /// triple
-zchar@calculatedFrom( """ ++ [28040; 24687]%N ++ runes_of_ascii """ ) `a\`
-    ,@rightPad ('\x00' ) string crc@lengthOf(
-    // trailing space 
-    o )
-    ,match
-rootA as len
-    {[ 10  , 3// " ++ [27880; 37322]%N ++ runes_of_ascii "
-, ""\n"" , """ ++ [233]%N ++ runes_of_ascii "t" ++ [233]%N ++ runes_of_ascii """
-,
-    ""packet""  ] :
-    // a // b
-    leftPad , 65535:
-pack } , zchar[ 65535 ]
-    //x
-    asx `u8 x,`
-    // a // b
-    , i16
-// @lengthOf(
+    packet
+Pad {
+@calculatedFrom( ""a	b""
+) zchar[ 7]x	`a\` , @lengthOf(msg_type
 // " ++ [27880; 37322]%N ++ runes_of_ascii "
-roots`u8 x,` ,
-// " ++ [128512]%N ++ runes_of_ascii " emoji
-//
-@leftPad ( )	f64 Packet
+// trailing space 
+) int32 Logon  @lengthOf(u128//	t
+)
+`two words`,	@lengthOf(asx)
+match o
+    as
+    asx {1 : crc , 00:f32a, }
     ,
-    } packet tag
-    { @rightPad //
-( '0' )repeat char[00 ] crc	,
-    } packet stringy	{ char[] roots`" ++ [233]%N ++ runes_of_ascii "` //	t
-,
-    }")).
-Eval vm_compute in ("<<<M4419>>>" ++ check (runes_of_ascii "MetaData  // " ++ [128512]%N ++ runes_of_ascii " emoji
-tag{char[] float,
-    lengthOf string_
-    ,
-	i32 
-	    // c
-	// a // b
-  	Foo	,	i64
-    Logon
-
-    `// not a comment`
-
-, char[
-	7
-	]
-	i8i8 , 
-
+char[ 1
+    ]
+leftPad @lengthOf(
+    string_ ) `
+` , f32
+    // a // b
+    trueish @calculatedFrom(//x
+"""" )``
+    // " ++ [128512]%N ++ runes_of_ascii " emoji
+    ,As ,
+x_y_z
+{ match	Packet as int { 007: x , // packet A { u8 x, }
+""" ++ [28040; 24687]%N ++ runes_of_ascii """  :
+    options1 , ""packet""
+:// packet A { u8 x, }
+repeatCount ""\n"" :
+x
+, }
+    //
+    ,char[]
+    i8i8 @lengthOf( x_y_z )
+`two words` ,match crc as
+x_y_z{""CRC32"" : Z9_, } , packetx ,
+} ,
+repeat
+    char[0
+// packet A { u8 x, }
 // `tick` ""quote"" 'q'
-// c
-  u16
-	pack
+] asx , @calculatedFrom(
+""1"" ) char[
+00 ] float,repeat i32 msg_type	,
+} packet x_y_z { // `tick` ""quote"" 'q'
+@calculatedFrom(
+    ""a\\"")
+    @calculatedFrom( ""packet""  ) uint8x @calculatedFrom( """" ) ,
+    //	t
+    @lengthOf( x )	u8x x, @calculatedFrom(
+    ""a	b"" ) int16 pack
+// packet A { u8 x, }
+//x
+, match  Pad as
+T
+//	t
+// @lengthOf(
+{
+    [ 00 ] : leftPad ,
+    ""CRC32""
+    : body	, //x
+3 :
+    zchar
+1:  u8x  7 : options1	,
+4294967296 :falsey
+    /// triple
+    , } , }
+    packet T {
+    zchar[
+65535 ]//x
+roots ,
+    int x`crlf
+line`
+,@lengthOf( //	t
+int)charz {	i64_
+    `" ++ [28040; 24687; 31867; 22411]%N ++ runes_of_ascii "` ,zchar[
+    // `tick` ""quote"" 'q'
+    42 ]
+    len
+    // @lengthOf(
+    @calculatedFrom( // " ++ [128512]%N ++ runes_of_ascii " emoji
+""" ++ [233]%N ++ runes_of_ascii "t" ++ [233]%N ++ runes_of_ascii """ ),	repeat
+i8 o , // " ++ [27880; 37322]%N ++ runes_of_ascii "
+char[0 ] // a // b
+options1`doc` , } ,
+@lengthOf( roots ) string
+Header, }")).
+Eval vm_compute in ("<<<M3836>>>" ++ check (runes_of_ascii "
+packet  // c
+lengthOf{
+    matchKey
+
+    `doc`
 ,
+i8i8 
+{
 
-}  options  {
+match crc as zchar
+    {[ 1 ,
+""abc"", 0 , 0123456789 ,
+	65535] :
 
-Packet
+chars, 
+""\n"":
 
-    =	""x y""	u128
-=
+uint8x""a\""b"" :int ,
 
-    7
-    u
-    = u32
+    [	""`tick`""
+    ,
+	""a	b"" 
+,
+""a	b"" , 4294967296 
+,
+	4294967296
+    ,
+""""
+
+    ,
+""a\""b"" ]
+
+:
+
+    string_	, 0123456789
+: // @lengthOf(
+
+  A, ""packet""
+        // a // b
+
+	:
+    asx}
+
+,	char[00 
+      //
+	  //
+
+  ]  u8x
+	`u8 x,`
+    ,
+
+    u8x
+
+{  uint32 float @calculatedFrom(
+""{,}""	),
+    //	t
+      // " ++ [128512]%N ++ runes_of_ascii " emoji
+	char[
+0
+// trailing space 
+// `tick` ""quote"" 'q'
+	]
+
+zchar
+, } ,falsey
+
+    @calculatedFrom(
+
+    """ ++ [128512]%N ++ runes_of_ascii """	) ,
+
+}// packet A { u8 x, }
+, 
+@calculatedFrom(
+
+""1"" ) 
+zchar[	255] 
+	// @lengthOf(
+	//
+    metadata @lengthOf(
+packetx ) ,Header
+
+@calculatedFrom(
+""CRC32""
+)  ,
+	// c
+	  // trailing space 
+	float@lengthOf(
+    crc
+) 
+``
+,
+	@tag(  42
+
+) @lengthOf(A
+
+)@lengthOf(u128 ) 
+stringy 	 // " ++ [27880; 37322]%N ++ runes_of_ascii "
+    	`" ++ [233]%N ++ runes_of_ascii "` , 
+@leftPad  (
+'0')char[ 4294967296	]
+float
+,
+	u
+	`" ++ [233]%N ++ runes_of_ascii "`	,
+	@lengthOf( falsey
+    )	// @lengthOf(
+    @lengthOf(/// triple
+	lengthOf)
+	repeat 
+f32 matchKey
+
+    `line1
+line2`	, }
+    options
+
+{
+    lengthOf
+= string
 ;
 
-} 	 // " ++ [128512]%N ++ runes_of_ascii " emoji
-	packet
-chars
-    { @tag(
+    }	packet	falsey { @tag(
+1)int16 
+repeatCount  @lengthOf(
+charz
 
-    0123456789 )@calculatedFrom(""x y""
+) 
+`a\` // @lengthOf(
+  ,
 
-)
+repeat
+	u64	MetaDataX `say ""hi""`
+	,}
+	options{
 
-    @rightPad
+    x = // packet A { u8 x, }
 
-('0'
-)f32 Pad
+	""abc""}MetaData	BodyLength
 
-    @lengthOf( crc
-// c
-    ) ,
-	@tag(// trailing space 
-	7 )
-i8 o @calculatedFrom(""1""	) ,
-    @rightPad  (
+{ zchar[4294967296
 
-    ' '
-	)calculatedFrom { stringy float ,  // c
-
-	repeat	Packet  roots`doc` 
-, repeat
-	matchKey  asx,repeat
-rootA
-
-    roots, } ,  @tag(  42 ) @leftPad
-(
-'\x00' )	/// triple
-	@calculatedFrom(  ""a	b""
-    )string
-o  @lengthOf(
-	roots), 	 // " ++ [128512]%N ++ runes_of_ascii " emoji
+    ] 
+zchar
+    ,} ")).
+Eval vm_compute in ("<<<M174>>>" ++ check (runes_of_ascii "root
+packet charz {// a // b
+@rightPad
+    //	t
+    (
+) @lengthOf(
+    Pad ) @rightPad ( ' '
+) MetaDataX @lengthOf( BodyLength
+) `" ++ [28040; 24687; 31867; 22411]%N ++ runes_of_ascii "`
+,
+    repeatCount /// triple
+A
+`
+`,	@tag(
+    4294967296) // trailing space 
+metadata u8x ,
+    @calculatedFrom( ""packet"" ) repeat Pad // @lengthOf(
+`say ""hi""`
+,  } root packet// trailing space 
+rootA {// " ++ [27880; 37322]%N ++ runes_of_ascii "
+rootA	{ string trueish ,
 }
-
-")).
-Eval vm_compute in ("<<<M4235>>>" ++ check (runes_of_ascii "packet As {
-    @leftPad('0')
-    @lengthOf(i64_)
-    @leftPad('\x00')
-    calculatedFrom f32a,
-    match x as x_y_z {
-        """" : body,
-        007 : o,
-        [""{,}""] : As,
-        ""\n"" : stringy,
-        4294967296 : roots,
-    },
-    calculatedFrom,
-    match Pad as asx {
-        [
-            3, 00, 10, """ ++ [28040; 24687]%N ++ runes_of_ascii """, ""1"",
-            ""a	b"", ""x y"", ""\" ++ [233]%N ++ runes_of_ascii """
-        ] : Pad,
-        65535 : x,
-        7 : x_y_z,
-        3 : charz,
-        """ ++ [233]%N ++ runes_of_ascii "t" ++ [233]%N ++ runes_of_ascii """ : lengthOf,
-    },
-    @calculatedFrom(""{,}"")
-    @calculatedFrom(""CRC32"")
-    @calculatedFrom(""a	b"")
-    /// triple
-    // trailing space 
-    crc As,
-    calculatedFrom {
-        char[] x ``,
-    },
-    @rightPad('\x00')
-    repeat char[] asx `tab	here`,
-    f32a {
-        repeat char u,
-    },
-}")).
-Eval vm_compute in ("<<<M49>>>" ++ check (runes_of_ascii "packet
-i8i8 {
-    char[]
+    ,
+} MetaData
+lengthOf {
+    } packet _x { repeat msg_type { char[ 65535 ]
+crc ,	lengthOf
+    {
+    Packet ,
+    // c
     string_
+    @calculatedFrom(""a\""b""),
+f32 rootA//
+,
+}	,
 // " ++ [27880; 37322]%N ++ runes_of_ascii "
-//
-`tab	here` //
-, @lengthOf(
-    T )
-    @lengthOf(
-uint8x)@rightPad ( '\x00' ) zchar[ 4294967296 // packet A { u8 x, }
-]	f32a @calculatedFrom(
-// " ++ [27880; 37322]%N ++ runes_of_ascii "
-//x
-""CRC32"")
-    `it's`	, } // @lengthOf(
-root // packet A { u8 x, }
-packet	A
-    { @rightPad
+// `tick` ""quote"" 'q'
+} ,i16 int  , @lengthOf( matchKey) //	t
+i8i8 int `two words` ,
+// packet A { u8 x, }
+// @lengthOf(
+repeat Logon{
+repeat
+    //	t
+    uint8	f32a ,
+    a1
+    //
+    { repeat char[1
+] Foo , }  , uint8x
+// @lengthOf(
+// packet A { u8 x, }
+{ char[ 4294967296 ]
+T `{ , }`
+, u32
+    repeatCount `" ++ [28040; 24687; 31867; 22411]%N ++ runes_of_ascii "`
+    // c
+    ,} , }
+    ,
+repeat MetaDataX
+, char[ 4294967296 ] i8i8//
+@lengthOf( _x ) ,}
+packet falsey {
+    tag
+{ char[ // " ++ [27880; 37322]%N ++ runes_of_ascii "
+00
+    // `tick` ""quote"" 'q'
+    ] int@lengthOf( u128
+    ) ,
+}
+,roots body ,u16 stringy
+// trailing space 
+// @lengthOf(
+@lengthOf( Pad ) `line1
+line2` ,
+stringy
+@lengthOf(  chars ) ,uint8 lengthOf
+`" ++ [233]%N ++ runes_of_ascii "` ,
+    // " ++ [128512]%N ++ runes_of_ascii " emoji
+    }")).
+Eval vm_compute in ("<<<M232>>>" ++ check (runes_of_ascii "packet falsey { int64
+BodyLength , @tag( 4294967296) // packet A { u8 x, }
+@leftPad (
+    )
+match _x as Foo
 //	t
 // packet A { u8 x, }
-( )
-    @calculatedFrom(""" ++ [233]%N ++ runes_of_ascii "t" ++ [233]%N ++ runes_of_ascii """ )	string T`crlf
-line`
-    ,
-    u64 falsey `two words`
-//x
+{ ""\n"": asx
+// `tick` ""quote"" 'q'
+// `tick` ""quote"" 'q'
+[ ""{,}""
+,	4294967296, """ ++ [128512]%N ++ runes_of_ascii """//	t
+, """ ++ [28040; 24687]%N ++ runes_of_ascii """,
+""packet"", ""packet""
+    // " ++ [27880; 37322]%N ++ runes_of_ascii "
+    , ""x y"" ,
 // trailing space 
-,zchar[ 65535	] lengthOf
-`doc` , match // `tick` ""quote"" 'q'
-crc
-as int { [ ""packet"",
-    ""it's""
-    ]
-: body ,007
+// " ++ [128512]%N ++ runes_of_ascii " emoji
+7 ]	: x_y_z	, } , // `tick` ""quote"" 'q'
+A len`// not a comment`
+    ,
+    //
+    repeat char[]
+i64_ `crlf
+line` ,
+// trailing space 
+// trailing space 
+repeat char[] u `line1
+line2`	, tag {string metadata ,
+    } ,
+// " ++ [27880; 37322]%N ++ runes_of_ascii "
+// " ++ [128512]%N ++ runes_of_ascii " emoji
+char[3
+    ] falsey @lengthOf(
+    leftPad ) `crlf
+line`
+,  } root	packet
+MetaDataX {@lengthOf( //
+u8x )
+    match f32a as Header {[ ""a\""b""
+//x
+// `tick` ""quote"" 'q'
+,255]:  u8x , ""packet""
 :
+uint8x
+    ,""1""
+:
+_x , },
+    Packet `doc` , zchar[
+    3 // " ++ [128512]%N ++ runes_of_ascii " emoji
+] u128 @lengthOf( asx  ) ,
+    }  MetaData x/// triple
+{
+// `tick` ""quote"" 'q'
+// `tick` ""quote"" 'q'
+As  roots , char[
+10	] crc
+// " ++ [128512]%N ++ runes_of_ascii " emoji
+/// triple
+`{ , }` ,
+    BodyLength
+asx  `u8 x,` ,matchKey i8i8 , falsey pack `" ++ [233]%N ++ runes_of_ascii "`,leftPad metadata ,
+    }
+options { pack	= 0 tag
+= f32 i64_ =""abc""	;
+// " ++ [128512]%N ++ runes_of_ascii " emoji
+// " ++ [128512]%N ++ runes_of_ascii " emoji
+f32a=
+    true ; } packet Foo { }
+")).
+Eval vm_compute in ("<<<M4015>>>" ++ check (runes_of_ascii "
+packet
+	metadata
+
+    {
+	zchar[
+255
+    ] rootA@lengthOf(  //	t
+  	stringy
+
+    )``, 
+Z9_ @calculatedFrom( ""\n""),
+
+    i64_	,
+@calculatedFrom(""abc"" ) 
+body `crlf
+line`
+
+, 	 // packet A { u8 x, }
+
+match metadata
+
+as
+leftPad {
+
+""\n"" : stringy ,  ""it's""
+	:
+
+rootA
+,  [ ""packet""
+    , 
+10	]:
+
+    lengthOf 
+,1
+
+    :
+    zchar	, }  ,@tag(	3 
+) //x
+
+char[] x_y_z 
+`u8 x,`
+,f64 
+o
+
+    @lengthOf( o ), @calculatedFrom(	// c
+	""" ++ [28040; 24687]%N ++ runes_of_ascii """
+)	zchar[
+007 ]
+options1 @lengthOf(msg_type  )
+,
+    } MetaData	T
+{  int16
+
+    u8x
+    ,char[ 
+1 ] 
+repeatCount,  uint16
+	i64_ `u8 x,`
+,  Header 
+x	``// " ++ [128512]%N ++ runes_of_ascii " emoji
+,stringy 
+msg_type
+    `" ++ [28040; 24687; 31867; 22411]%N ++ runes_of_ascii "`
+	, } packet
+i8i8 {
+} packet
+    Header 
+{
+	repeat Z9_
+
+    roots
+, }
+
+    packet calculatedFrom
+    {  T
+    @lengthOf( Foo
+    )
+`u8 x,`
+	// " ++ [128512]%N ++ runes_of_ascii " emoji
+	,	match
+tag
+as 
+    //	t
+
+// a // b
+    	charz{
+""\" ++ [233]%N ++ runes_of_ascii """ 
+:
+string_
+	,	[ 1 ,
+""" ++ [28040; 24687]%N ++ runes_of_ascii """
+
+,  /// triple
+
+""CRC32""  ]
+	: falsey , [
+007 
+]
+
+:
+float ,
+    3 
+: 
+MetaDataX , 
+[  ""`tick`""] :
+	u,
+1
+    // trailing space 
+  // packet A { u8 x, }
+: metadata ,
+    } 	 // `tick` ""quote"" 'q'
+	,
+    } ")).
+Eval vm_compute in ("<<<M1060>>>" ++ check (runes_of_ascii "packet i64_{
+@tag( 4294967296
+) As
+{ repeat f32
+BodyLength ,
+// trailing space 
+// a // b
+i64_ @calculatedFrom(""{,}""
+// @lengthOf(
+// a // b
+) ,	repeatCount
+packetx `" ++ [28040; 24687; 31867; 22411]%N ++ runes_of_ascii "`
+    ,}, @lengthOf( _x )
+options1 ,
+    //	t
+    options1 , @rightPad (
+'0') repeat // packet A { u8 x, }
+string Foo
+    ,
+    char[] string_@calculatedFrom(""a	b"" )// c
+`u8 x,` ,
+char[
+// packet A { u8 x, }
+// @lengthOf(
+65535]  x_y_z ,	repeat
+    options1 packetx/// triple
+, @lengthOf(
+matchKey )
+@calculatedFrom( ""\" ++ [233]%N ++ runes_of_ascii """) repeat
+    Logon // trailing space 
+asx , matchKey
+@lengthOf(
+// `tick` ""quote"" 'q'
+//
+lengthOf  )
+`u8 x,`
+    , // packet A { u8 x, }
+}root packet repeatCount{ @rightPad ( '\x00' ) u8 Packet `// not a comment`
+    , @calculatedFrom( ""CRC32""
+) i8i8 , repeat u{// `tick` ""quote"" 'q'
+char[255]u128 , i16
+    Packet `doc`, zchar[
+    3//
+]  BodyLength , char[]
+u
+    `say ""hi""`
+    ,
+} , int32 float ,i8 Logon , @lengthOf( rootA)  zchar[42 ] int @lengthOf( lengthOf ) , //
+repeat	char[ 42 ]
+metadata ,
+} packet falsey{ }
+")).
+Eval vm_compute in ("<<<M3642>>>" ++ check (runes_of_ascii "options {
+    StringPrefixLenType = u64;
+    ArrayPrefixLenType = u16;
+    FixedStringPadChar = ' ';
+}
+packet Logon {
+    i32 msgKind,
+    repeat InOrderid65 {
+        u8 pad0,
+    },
+    i8 tag7,
+    @leftPad(' ') char[12] x,
+}
+packet Leg {
+    char[] f1,
+    repeat char[5] Px,
+    InQty34 {
+        repeat char[6] Qty,
+        char[7] seqNo,
+        string count,
+    },
+    Logon,
+}
+packet Party {
+    @leftPad('0') char[10] OrderId,
+    string Tail,
+}
+packet Fill {
+    zchar[5] venue,
+    zchar[3] clOrdID,
+    InRef95 {
+        InLastpx25 {
+            u8 pad0,
+        },
+        float64 OrderId,
+        i32 f1,
+        float32 x,
+        char[] seqNo,
+    },
+    repeat string seqNo,
+}
+root packet Heartbeat {
+    repeat Leg,
+    u32 seqNo,
+    u16 tag7,
+    u32 Flags @lengthOf(Body),
+    match tag7 as Body {
+        [195, 75] : Party,
+        171 : Fill,
+        78 : Logon,
+        142 : Leg,
+    },
+    u32 Note @calculatedFrom(""CR\
+C32""),
+}
+")).
+Eval vm_compute in ("<<<M4264>>>" ++ check (runes_of_ascii "
+packet 
+int 
+	// a // b
+  // @lengthOf(
+    {
+i16 Logon @calculatedFrom(	""a\\""
+	),  repeat
+
+    calculatedFrom`// not a comment`
+,@calculatedFrom(  
+      // @lengthOf(
+""CRC32"" ) Z9_  charz, 
+@lengthOf(Z9_ )  /// triple
+matchKey`u8 x,`  ,
+}  MetaData 
+asx { 
+} packet Packet
+	{@tag(
+
+    65535
+)	options1
+
+    , int
+@lengthOf(
+
+metadata
+)
+`it's` , 
+  //x
+
+	u8x
+{char[
+
+    00
+
+] Logon
+
+    ,
+
+repeat
+
+    i32
+    T
+	`// not a comment`	,chars { float64
+    msg_type
+    @lengthOf( body),
+f64
+Z9_ 
+,
+// a // b
+
+	// @lengthOf(
+    u16
+    string_ 
+@lengthOf(
+int )
+`doc`
+,	//x
+	repeatCount
+	@calculatedFrom(
+
+""x y""
+)
+
+, }
+
+,	}
+    ,
+	match
+A  /// triple
+	as 
+u{ [""packet""
+, ""x y""
+]
+: f32a
+, [ 65535	/// triple
+  ,
+00
+] :
+	stringy 255
+:
+
+    pack	, [ 0
+, ""`tick`"" ]:  x, 1
+: matchKey
+
+    , },}
+	packet
+roots{@calculatedFrom(
+	""\n""
+    ) char[
+65535
     // a // b
-    leftPad
-,	""{,}"" :
-    Z9_, [ 0123456789
-    , 00
-    , ""a\\"" // " ++ [128512]%N ++ runes_of_ascii " emoji
-, """ ++ [128512]%N ++ runes_of_ascii """  , ""\" ++ [233]%N ++ runes_of_ascii """
-    , ""`tick`"", ""it's"",
-    """ ++ [233]%N ++ runes_of_ascii "t" ++ [233]%N ++ runes_of_ascii """]
-: x_y_z,} // c
+  	]Packet ,}
+")).
+Eval vm_compute in ("<<<M653>>>" ++ check (runes_of_ascii "
+packet
+    f32a { // c
+string len  @lengthOf( As ) // " ++ [128512]%N ++ runes_of_ascii " emoji
+`line1
+line2` , zchar[ 1//x
+] zchar `{ , }` , tag
+    //
+    @lengthOf( rootA) , // c
+string x_y_z `" ++ [28040; 24687; 31867; 22411]%N ++ runes_of_ascii "`, }packet crc {
+BodyLength
+@lengthOf(
+msg_type
+    ) , } MetaData packetx  {	} root packet lengthOf {repeat uint32	zchar , // " ++ [27880; 37322]%N ++ runes_of_ascii "
+T {
+msg_type // a // b
+{ f32a  { charz
+    stringy ``
+    , uint16
+u128
+, i16
+    BodyLength
+    @lengthOf(
+    x ) ,int8 //
+metadata `tab	here`, }
+// c
+// trailing space 
+,
+repeat Packet
+`doc` , // packet A { u8 x, }
+int8 A @calculatedFrom(
+""CRC32"" )
+    ,
+    }, Pad asx ,
+char[
+0 ]
+    repeatCount ,
+} ,
+    u16
+Z9_ `" ++ [233]%N ++ runes_of_ascii "` , @rightPad
+(
+    // @lengthOf(
+    '\x00' )
+    repeat Header
+//	t
+// " ++ [27880; 37322]%N ++ runes_of_ascii "
+`line1
+line2` ,@calculatedFrom(
+    ""\" ++ [233]%N ++ runes_of_ascii """ )
+char[]rootA @calculatedFrom( ""// no comment"" )`doc`
+, // a // b
+calculatedFrom `a\`,
+} packet As	{  }")).
+Eval vm_compute in ("<<<M4148>>>" ++ check (runes_of_ascii "// a // b
+packet rootA {
+    @lengthOf(Packet)
+    Logon {
+        char[7] T `
+        `,
+    },
+    @lengthOf(rootA)
+    repeat zchar[00] Header,
+    // c
+    // packet A { u8 x, }
+    repeat i8i8 {
+        match Foo as i8i8 {
+            [
+                4294967296, 1, 7, ""\" ++ [233]%N ++ runes_of_ascii """, ""\n"",
+                42, 255, 007
+            ] : options1,
+            4294967296 : pack,
+            """" : u8x,
+            [65535, ""\n""] : pack,
+            ""`tick`"" : Z9_,
+        },
+        float64 stringy,
+    },
+    @calculatedFrom(""`tick`"")
+    x {
+        A @lengthOf(crc),
+        char[00] roots,
+    },
+    @lengthOf(int)
+    // " ++ [27880; 37322]%N ++ runes_of_ascii "
+    @lengthOf(u8x)
+    // @lengthOf(
+    @lengthOf(a1)
+    uint16 trueish @calculatedFrom(""a\\""),
+    Header @lengthOf(MetaDataX) `say ""hi""`,
+    roots @lengthOf(a1),
+}
+// " ++ [128512]%N ++ runes_of_ascii " emoji")).
+Eval vm_compute in ("<<<M4389>>>" ++ check (runes_of_ascii "
+
+  packet	tag
+
+{
+
+float32
+repeatCount
+
+@calculatedFrom( ""// no comment"" )  , } packet
+    i64_	{char[ 
+00
+
+    ]  calculatedFrom
+
+    ,	// " ++ [128512]%N ++ runes_of_ascii " emoji
+@calculatedFrom( ""packet""
+)
+    i16
+
+    Packet,
+falsey
+
+    {  char[] 
+    // c
+    calculatedFrom  @lengthOf( 
+stringy) 
+  // `tick` ""quote"" 'q'
+  `` ,
+	} 	 //
+,
+    repeat 
+i32
+matchKey , repeat char[	7 ]  /// triple
+    	tag
+    `// not a comment`	,
+leftPad {	// @lengthOf(
+    	char[]i8i8 ,
+}
+, @lengthOf( x_y_z  )
+	char[
+3	]
+matchKey ``
+	,	float
+{
+    char[]	chars,	repeat zchar[1 ] 
+x_y_z ,
+}	,  i8  x_y_z
+    //	t
+
+  //
+	,  string
+	asx	//
+
+,
+
+}
+root	packet int {chars@lengthOf( Foo  )`a\`
+	, repeat char[ 0123456789
+
+] BodyLength ,
+    i8 
+T ,	@rightPad
+
+    (
+    ) u64  lengthOf	,
+
+    }
+")).
+Eval vm_compute in ("<<<M826>>>" ++ check (runes_of_ascii "packet As {// " ++ [27880; 37322]%N ++ runes_of_ascii "
+@leftPad	( '0'
+    /// triple
+    ) @lengthOf( i64_ )
+// @lengthOf(
+/// triple
+@leftPad (
+    '\x00' )
+    calculatedFrom  f32a,
+match x	as x_y_z { """"
+    // c
+    : body ,
+007
+:
+o
+,
+    [	""{,}"" ] :As, ""\n"" : stringy ,4294967296 : roots ,	}
+,	calculatedFrom ,
+match
+Pad as asx
+    { [ """ ++ [28040; 24687]%N ++ runes_of_ascii """ , ""1"" ,""a	b"" ,  3 ,""x y""
+,00
+    ,
+10 , ""\" ++ [233]%N ++ runes_of_ascii """ ] :Pad 65535 :x 7
+:x_y_z 3 : charz,""" ++ [233]%N ++ runes_of_ascii "t" ++ [233]%N ++ runes_of_ascii """
+:lengthOf
+} , @calculatedFrom(
+    ""{,}"" )
+@calculatedFrom( ""CRC32"" ) @calculatedFrom(""a	b"" )
+/// triple
+// trailing space 
+crc As /// triple
+,calculatedFrom{
+char[]	x
+    ``
+    , } , @rightPad// `tick` ""quote"" 'q'
+(
+    '\x00' )
+repeat char[]
+    asx /// triple
+`tab	here` ,f32a
+{ repeat char u
+,} // `tick` ""quote"" 'q'
+,
+}")).
+Eval vm_compute in ("<<<M892>>>" ++ check (runes_of_ascii "
+MetaData // " ++ [128512]%N ++ runes_of_ascii " emoji
+tag {
+char[] float,
+lengthOf
+    string_
+,
+    i32
+// c
+// a // b
+Foo , i64
+Logon
+    `// not a comment` , char[
+7]
+i8i8
+,
+// `tick` ""quote"" 'q'
+// c
+u16 pack, } options
+{ Packet=""x y"" u128
+    =
+7 u= u32 ; } // " ++ [128512]%N ++ runes_of_ascii " emoji
+packet
+    chars {
+    @tag( 0123456789) @calculatedFrom( ""x y"" )
+@rightPad (
+'0' ) f32 Pad @lengthOf( crc
+    // c
+    ) ,@tag( // trailing space 
+7
+) i8
+    o @calculatedFrom(
+""1""
+)
+,
+    @rightPad ( ' ' ) calculatedFrom {
+stringy float, // c
+repeat Packet roots
+`doc` ,repeat matchKey asx , repeat rootA roots  , } ,
+    @tag( 42 )@leftPad
+( '\x00' ) /// triple
+@calculatedFrom(""a	b"" )
+string
+    o @lengthOf( roots )	, // " ++ [128512]%N ++ runes_of_ascii " emoji
+}
+")).
+Eval vm_compute in ("<<<M944>>>" ++ check (runes_of_ascii "packet
+i8i8 {	@tag( 65535 ) i8i8 ,  repeat
+u8 uint8x , zchar[7] u
+    // " ++ [27880; 37322]%N ++ runes_of_ascii "
+    ,
+    repeat
+    char[] Packet , @leftPad ( '\x00' )i64_
+    { x `line1
+line2` ,//x
+} , // a // b
+repeat Foo{	len{match // a // b
+u  as
+    _x { 42
+    :  tag , [
+""" ++ [233]%N ++ runes_of_ascii "t" ++ [233]%N ++ runes_of_ascii """	] : _x[ 7 , 4294967296] : Packet , } ,float64 o
+`it's`,int64
+    options1 ,//	t
+} ,
+} , @leftPad
+(
+    '\x00' )match x //
+as zchar{	255:
+    //
+    o, 255 : Logon /// triple
+,	0	: Header ,007
+    : msg_type ,[
+    // packet A { u8 x, }
+    ""\n"" ,// packet A { u8 x, }
+007
+// " ++ [27880; 37322]%N ++ runes_of_ascii "
+// a // b
+, ""1"" ,  255// a // b
+,4294967296 , 0 ,007
+    ] :
+    int , } , }// trailing space 
+packet
+As
+{ }
+
+")).
+Eval vm_compute in ("<<<M4205>>>" ++ check (runes_of_ascii "packet As {
+    char[42] chars @calculatedFrom(""a\""b"") `it's`,
+    f32a falsey `// not a comment`,// " ++ [128512]%N ++ runes_of_ascii " emoji
+    string trueish `" ++ [28040; 24687; 31867; 22411]%N ++ runes_of_ascii "`,
+    @lengthOf(metadata)
+    @tag(65535)
+    @calculatedFrom(""`tick`"")
+    repeat Logon {
+        x_y_z @lengthOf(lengthOf),
+        uint32 u,
+        i64_ @calculatedFrom(""CRC32"") `a\`,
+        asx @calculatedFrom("""") `u8 x,`,
+    },
+    u16 _x ``,
+    repeat string_,
+    options1 f32a,
+    @calculatedFrom(""\n"")
+    Packet @lengthOf(zchar),
+}// `tick` ""quote"" 'q'
+
+options {
+    // a // b
+}
+
+packet a1 {
+    @tag(0123456789)
+    u8 uint8x `{ , }`,
+    u32 x_y_z `say ""hi""`,
+}")).
+Eval vm_compute in ("<<<M863>>>" ++ check (runes_of_ascii "
+packet
+    zchar // " ++ [128512]%N ++ runes_of_ascii " emoji
+{ match Foo /// triple
+as pack {""abc"": falsey ,10 : _x , }
+,@tag(	255 )string
+// @lengthOf(
+// a // b
+len `line1
+line2` ,
+}  MetaData o {metadata
+A
+    , string
+stringy , string	Foo	`say ""hi""`	, repeatCount // " ++ [27880; 37322]%N ++ runes_of_ascii "
+matchKey ,	x //x
+u8x , // " ++ [27880; 37322]%N ++ runes_of_ascii "
+} packet
+    _x { @leftPad// @lengthOf(
+(	'\x00') @calculatedFrom(
+    ""packet""
+) repeat
+// trailing space 
+// c
+Foo
+Z9_ , @lengthOf( As ) uint64
+_x @lengthOf( pack )
+/// triple
+// a // b
+,@rightPad // " ++ [128512]%N ++ runes_of_ascii " emoji
+(
+    '0'
+)match A as uint8x
+{	[0
+,  ""\" ++ [233]%N ++ runes_of_ascii """]:Packet ,007	: MetaDataX // " ++ [128512]%N ++ runes_of_ascii " emoji
+, ""1""	: trueish, }
 ,}
 ")).
-Eval vm_compute in ("<<<M1385>>>" ++ check (runes_of_ascii "options{ msg_type =
-'0' ;
-}
-// trailing space 
-// " ++ [27880; 37322]%N ++ runes_of_ascii "
-packet
-matchKey	{ @calculatedFrom( ""x y"" )
-    zchar[
-10 ]metadata , Z9_
-@calculatedFrom(""packet"" ), zchar[ 4294967296]
-packetx `doc` ,tag
-@lengthOf(packetx
-) , // c
-@rightPad() u
-T , char[3// " ++ [128512]%N ++ runes_of_ascii " emoji
-]int , @calculatedFrom( ""CRC32""
-) repeat
-    // @lengthOf(
-    metadata {u128
-@calculatedFrom(
-"""")
-, repeat i32
-    Z9_
-    ,  repeat uint64 trueish `a\` ,
-    a1{
-    //x
-    uint8 _x // packet A { u8 x, }
-@lengthOf( _x  ) // trailing space 
-, } ,}  , match
-options1
-as leftPad  { //
-""" ++ [28040; 24687]%N ++ runes_of_ascii """
-    :
-    u8x ,1:
-body ,}/// triple
-, @calculatedFrom( ""1""
-) match T as Foo {  255 : T, } , } options{ } options { }")).
-Eval vm_compute in ("<<<M4262>>>" ++ check (runes_of_ascii "packet BodyLength {
-    char[255] _x,
-    match body as repeatCount {
-        ""{,}"" : len,
+Eval vm_compute in ("<<<M3720>>>" ++ check (runes_of_ascii "packet x_y_z {
+    x_y_z @calculatedFrom(""CRC32""),
+    x {
+        char[0123456789] msg_type @lengthOf(float),
+        body calculatedFrom `line1
+                line2`,
+        match Header as stringy {
+            [255] : x,
+            10 : options1,
+        },
     },
-    char[0] Logon @calculatedFrom(""{,}""),
-    @rightPad()
-    i64_ @calculatedFrom(""it's"") `crlf
-        line`,
-}
-
-packet Header {
-    match As as chars {
-        7 : packetx,
-        [""it's""] : u128,
-        [4294967296, ""{,}""] : f32a,
-    },
-}
-
-packet asx {
-    @calculatedFrom(""1"")
-    a1,
-    //
-    //x
-    match x_y_z as crc {
-        // `tick` ""quote"" 'q'
-        // `tick` ""quote"" 'q'
-        ""CRC32"" : As,
-        7 : o,
-    },
-    match msg_type as Packet {
-        """ ++ [233]%N ++ runes_of_ascii "t" ++ [233]%N ++ runes_of_ascii """ : metadata,
-    },
-    repeat u8 i64_,// a // b
-}")).
-Eval vm_compute in ("<<<M528>>>" ++ check (runes_of_ascii "
-packet x_y_z // " ++ [27880; 37322]%N ++ runes_of_ascii "
-{ x_y_z @calculatedFrom(""CRC32"" )
-, x{ char[	0123456789 ]
-    msg_type @lengthOf( float
-    ), body
-    calculatedFrom `line1
-line2`
-, match
-Header
-as stringy
-    { [ 255 ] :x , 10: options1 // trailing space 
-, } ,
-    } , repeat char[] options1 `u8 x,`// " ++ [128512]%N ++ runes_of_ascii " emoji
-, metadata @calculatedFrom(""\" ++ [233]%N ++ runes_of_ascii """
-    //
-    )
-`` , string
-falsey ,
-    @rightPad
-    // packet A { u8 x, }
-    ( ' '
-) @tag( 007 ) string repeatCount ,
-    options1 @calculatedFrom(
-// c
-//
-""packet"")// @lengthOf(
+    repeat char[] options1 `u8 x,`,
+    metadata @calculatedFrom(""\" ++ [233]%N ++ runes_of_ascii """) ``,
+    string falsey,
+    @rightPad(' ')
+    @tag(007)
+    string repeatCount,
+    options1 @calculatedFrom(""packet""),
+    @lengthOf(BodyLength)
+    char[] matchKey @calculatedFrom(""a	b""),
+}// packet A { u8 x, }")).
+Eval vm_compute in ("<<<M1164>>>" ++ check (runes_of_ascii "/// triple
+packet falsey { i32	BodyLength @calculatedFrom( ""// no comment""
+    ) ,
+i8i8 // " ++ [27880; 37322]%N ++ runes_of_ascii "
+body // trailing space 
+,@calculatedFrom(""packet"" ) repeat  char
+    stringy,@rightPad( // `tick` ""quote"" 'q'
+'0' )matchKey
+@lengthOf( a1 ) , match
+options1 as trueish { ""abc"":Logon
 ,
-@lengthOf(
-    BodyLength ) char[] matchKey//x
-@calculatedFrom( ""a	b"" ),} // packet A { u8 x, }")).
-Eval vm_compute in ("<<<M595>>>" ++ check (runes_of_ascii "
-options
-{asx =
-    // " ++ [27880; 37322]%N ++ runes_of_ascii "
-    string ;}options
-// " ++ [27880; 37322]%N ++ runes_of_ascii "
-// trailing space 
-{ repeatCount = zchar[0
-    ] ; leftPad
-// packet A { u8 x, }
-// @lengthOf(
-=
-    string
-    ; uint8x
-= '0'
-    ; }
-//x
-//	t
-root packet uint8x { trueish x_y_z , As
-// a // b
-//	t
-, zchar[//
-00 ] uint8x @lengthOf( a1 ) //
-`say ""hi""`
-    ,
-    @leftPad
-    (  )
-zchar[ 4294967296 ]
-    // @lengthOf(
-    metadata
-    `say ""hi""` ,float32 u128
-`line1
-line2`, char[ 10]
-    // " ++ [27880; 37322]%N ++ runes_of_ascii "
-    lengthOf@calculatedFrom( ""CRC32""
-) `doc` ,a1@lengthOf( chars )
-,
-    char[ 10 ] calculatedFrom
-, repeat
-uint32 As
-    ,	}")).
-Eval vm_compute in ("<<<M1148>>>" ++ check (runes_of_ascii "// packet A { u8 x, }
-packet
-    Foo { }
-    packet i64_ {asx @lengthOf( a1 )`two words` , repeat
-i64_ {char[]u `crlf
-line`,char[
-    10
-    // @lengthOf(
-    ] metadata,
-    //
-    a1  {
-    repeat zchar[
-    1
-    ] len , char[ 00 // packet A { u8 x, }
-]Z9_@calculatedFrom( ""a\\"" ) // " ++ [27880; 37322]%N ++ runes_of_ascii "
-,	zchar[ 7 ] Header
-    @lengthOf(	x ) , repeat//
-pack,// @lengthOf(
-}  , // trailing space 
-}
-    //x
-    ,  match tag as u8x { ""{,}""
-    : zchar ,  1
-: metadata , """ ++ [233]%N ++ runes_of_ascii "t" ++ [233]%N ++ runes_of_ascii """
-    :
-a1 """ ++ [233]%N ++ runes_of_ascii "t" ++ [233]%N ++ runes_of_ascii """ : chars //
-,[ ""a\\""]  :crc	} ,
-    tag@calculatedFrom( """ ++ [128512]%N ++ runes_of_ascii """) , }
-//
-")).
-Eval vm_compute in ("<<<M4504>>>" ++ check (runes_of_ascii "// top
-packet P1 {
-    u8 a,// c5a
-}
-
-packet P2 {
-    // c9
-    P1,// c11a
-}
-
-// c12
-packet P3 {
-    // c15
-    P2,
-    // c17
-    P1,// c19
-}// c20a
-
-// c20b
-packet P4 {
-    // c23
-    repeat P3,
-    // c26
-    P2,
-}
-
-// c29
-root packet P5 {
-    // c33a
-    // c33b
-    P4,// c35a
-    // c35b
-    P3,// c37
-    P1,// c39
-    u8 K,
-    match K as Body {
-        // c47a
-        // c47b
-        4 : P4,
-        // c51a
-        // c51b
-        3 : P3,
-        // c55a
-        // c55b
-        2 : P2,
-        1 : P1,
-    },
-}")).
-Eval vm_compute in ("<<<M4015>>>" ++ check (runes_of_ascii "packet A {
-    Logon o,
-    u8x {
-        // @lengthOf(
-        asx chars,
-    },
-    x o,
-    @leftPad()
-    // trailing space 
-    As @lengthOf(u),
-}
-
-MetaData f32a {
-    crc Logon,
-}
-
-root packet u128 {
-    stringy Logon `a\`,
-    @calculatedFrom(""1"")
-    @leftPad('\x00')
-    @tag(255)
-    int64 stringy @lengthOf(lengthOf) `line1
-        line2`,
-    rootA `
-        `,
-    @calculatedFrom(""a	b"")
-    // packet A { u8 x, }
-    o @calculatedFrom(""`tick`"") `a\`,
-    repeatCount @lengthOf(T),
-}")).
-Eval vm_compute in ("<<<M593>>>" ++ check (runes_of_ascii "root packet matchKey // trailing space 
-{ // a // b
-u8 roots `two words` , // " ++ [27880; 37322]%N ++ runes_of_ascii "
-} //	t
-root packet float {	@rightPad ( '0') i8i8
-    , packetx @calculatedFrom( ""a\\""
-) ,float32
-    trueish
-    `
-`  ,
-    @calculatedFrom(
-""x y"" // c
-)
-    @lengthOf( //
-o
-// c
-/// triple
-) @lengthOf( uint8x ) i16 Logon
-    , @leftPad (
-    ' ' ) @lengthOf(
-zchar	)
-@lengthOf(
-    x_y_z )
-o
-matchKey
-    `" ++ [233]%N ++ runes_of_ascii "` ,
-    match u8x	as Z9_  { ""a\""b"":// " ++ [27880; 37322]%N ++ runes_of_ascii "
-_x , } , crc
-BodyLength `it's` ,}
-//
-")).
-Eval vm_compute in ("<<<M3555>>>" ++ check (runes_of_ascii "// top
-options // c0
-{ // c1a
-  // c1b
-LittleEndian =
-    // c3
-true // c4a
-  // c4b
-;
-    // c5
-} // c6a
-  // c6b
-packet
-    // c7
-B // c8
-{
-    // c9
-u8 // c10
-a // c11
-, // c12
-string
-    // c13
-s // c14a
-  // c14b
-, // c15
-}
-    // c16
-root
-    // c17
-packet // c18
-P // c19
-{ // c20
-u16 // c21a
-  // c21b
-L // c22a
-  // c22b
-@lengthOf( // c23
-B // c24a
-  // c24b
-)
-    // c25
-, B
-    // c27
-,
-    // c28
-u8
-    // c29
-t , // c31a
-  // c31b
-} // c32
-")).
-Eval vm_compute in ("<<<M148>>>" ++ check (runes_of_ascii "packet Foo  { Logon A`a\`, a1 A
-, @lengthOf(
-//	t
-// trailing space 
-tag ) // trailing space 
-x_y_z
-@lengthOf( leftPad
-    ) `it's`, @tag( 255 ) match crc// @lengthOf(
-as  roots {
-""" ++ [233]%N ++ runes_of_ascii "t" ++ [233]%N ++ runes_of_ascii """	:Foo ,[ 10 , 007 //
-, // a // b
-""" ++ [233]%N ++ runes_of_ascii "t" ++ [233]%N ++ runes_of_ascii """ ,
-// c
-// @lengthOf(
-""a	b""]
-    :x_y_z}
-    , // @lengthOf(
-}  root packet As { }	MetaData calculatedFrom // trailing space 
-{ Z9_ _x ``	,
-} MetaData tag { // " ++ [27880; 37322]%N ++ runes_of_ascii "
-string body , string options1 ,i8i8 pack, }
-")).
-Eval vm_compute in ("<<<M1368>>>" ++ check (runes_of_ascii "
-root  packet crc  { @leftPad (
-    '0'
-) @lengthOf( float)roots
-    Logon `u8 x,` , char[ 3
-] repeatCount `a\`
-// `tick` ""quote"" 'q'
-// @lengthOf(
-,match
-uint8x as//x
-msg_type{ 10
-:  body , 0123456789  :o
 } ,
-repeat x
-// c
-// c
-{ uint8 roots
-@calculatedFrom( ""abc"" ) `" ++ [28040; 24687; 31867; 22411]%N ++ runes_of_ascii "`,
-}
-, } packet //	t
-calculatedFrom
-{uint8 MetaDataX `// not a comment` , }
-packet crc {
-Z9_
-{ repeat crc `doc`
-,Z9_ ``,  }, }
-// a // b
+T
+leftPad
+    , As {  metadata f32a ,
+//x
+// " ++ [27880; 37322]%N ++ runes_of_ascii "
+As @lengthOf( matchKey) , } , repeat Packet
+falsey `say ""hi""`
+    ,
+char[
+255
+] charz
+@lengthOf(
+// " ++ [128512]%N ++ runes_of_ascii " emoji
+// packet A { u8 x, }
+metadata
+    // " ++ [128512]%N ++ runes_of_ascii " emoji
+    ) // " ++ [128512]%N ++ runes_of_ascii " emoji
+`" ++ [28040; 24687; 31867; 22411]%N ++ runes_of_ascii "` , } options { }
 ")).
-Eval vm_compute in ("<<<M3821>>>" ++ check (runes_of_ascii "
-options
-
-    { i8i8 = 65535 ;
-asx /// triple
-	  =
-    float64  charz 
-=""`tick`""
-
-As	//
-  = 7
-	;  i8i8 =""\n"" } 
+Eval vm_compute in ("<<<M391>>>" ++ check (runes_of_ascii "// " ++ [128512]%N ++ runes_of_ascii " emoji
+packet o {
+char[
     // `tick` ""quote"" 'q'
-  // " ++ [27880; 37322]%N ++ runes_of_ascii "
-    packet
-u {
-} options
+    4294967296 ]	tag ,@tag(	1
+    // a // b
+    )	zchar[ //
+0123456789]
+Logon ,stringy `it's`	, repeat string Logon
+, repeat
+f32 string_
+    //x
+    `u8 x,` ,
+@lengthOf( roots
+) A `" ++ [233]%N ++ runes_of_ascii "`
+    ,string_ ,
+@lengthOf( //	t
+i64_ ) @calculatedFrom(
+    ""1"" ) //	t
+f32a @lengthOf(
+f32a
+)
+    `doc`
+,
+    // `tick` ""quote"" 'q'
+    @calculatedFrom(
+""" ++ [28040; 24687]%N ++ runes_of_ascii """ )repeatCount `a\` ,}
+    /// triple
+    root
+packet //
+As { @tag( //
+0) char[] o`it's`
+,
+}packet matchKey{ }")).
+Eval vm_compute in ("<<<M880>>>" ++ check (runes_of_ascii "packet
+crc
+    {
+@leftPad ( ' ' ) u64 packetx @lengthOf(trueish ) ,
+float
+`line1
+line2` ,
+// packet A { u8 x, }
+// trailing space 
+}packet
+msg_type{zchar[ 3 ]i8i8
+@lengthOf( u )	,char[] roots , match x_y_z as
+uint8x
+{ ""a	b"":body	, } /// triple
+,
+@tag(
+42 )	@rightPad
+// `tick` ""quote"" 'q'
+//x
+(
+'0'	) Packet
+// " ++ [128512]%N ++ runes_of_ascii " emoji
+// packet A { u8 x, }
+@calculatedFrom( ""1"" // c
+) `
+`,@lengthOf(  MetaDataX ) i32 // `tick` ""quote"" 'q'
+trueish,
+@rightPad ( ' '  )
+    u128
+@lengthOf( _x )  , }")).
+Eval vm_compute in ("<<<M3819>>>" ++ check (runes_of_ascii "MetaData a1 {
+    f64 int,
+    i32 o `two words`,
+    char[3] lengthOf,
+    zchar[7] Header,
+    u32 x_y_z,
+    char[3] matchKey,
+}
 
-    { 
-    // packet A { u8 x, }
+packet falsey {
+    @lengthOf(i8i8)
+    match MetaDataX as calculatedFrom {
+        00 : float,
+        // " ++ [27880; 37322]%N ++ runes_of_ascii "
+        7 : MetaDataX,
+        """ ++ [28040; 24687]%N ++ runes_of_ascii """ : options1,
+        [""a\\""] : charz,
+    },
+    match T as Z9_ {
+        [""it's""] : falsey,
+        255 : Foo,
+        ""a\\"" : Header,
+    },
+}
+
+MetaData lengthOf {
+    As rootA `doc`,
+}")).
+Eval vm_compute in ("<<<M64>>>" ++ check (runes_of_ascii "
+MetaData x_y_z // c
+{char As ,} packet packetx { asx @calculatedFrom( """ ++ [128512]%N ++ runes_of_ascii """
+) `a\`, MetaDataX // packet A { u8 x, }
+, @leftPad
+(
+    '0'
+)
+asx@lengthOf( f32a) `a\` , @lengthOf(	metadata )
+match	Packet as lengthOf { [ // `tick` ""quote"" 'q'
+""packet"", """ ++ [128512]%N ++ runes_of_ascii """] : // trailing space 
+Foo , 0
+    :
+    crc [
+10
+, ""CRC32"" ]
+:
+trueish
+//
+// " ++ [27880; 37322]%N ++ runes_of_ascii "
+,}	, } packet/// triple
+lengthOf { @lengthOf( msg_type )
+repeat zchar[7 ]  f32a `" ++ [233]%N ++ runes_of_ascii "`,
+int64 tag ,  }
+")).
+Eval vm_compute in ("<<<M851>>>" ++ check (runes_of_ascii "options {
+_x
+    =	""`tick`"";
+    body = 65535 packetx=int8
+; metadata =0123456789
+    ; }
+packet matchKey {
+@tag(
+//	t
+// c
+4294967296 ) match leftPad
+as T  { ""a\""b"" //
+:metadata // " ++ [128512]%N ++ runes_of_ascii " emoji
+, [ 42 , 007 , 0 ,
+00  ,
+// trailing space 
+// @lengthOf(
+7 ,	""a\\""
+,
+// c
+//	t
+""1"" ]
+    :metadata
+,
+[	"""" , ""a	b"" ,
+""CRC32""
+, 255 ,
+    ""a	b"" ]
+    : // c
+asx
+3 :
+_x , 65535 // @lengthOf(
+: _x , ""\n"" :
+Logon ,} ,
+    } options { }")).
+Eval vm_compute in ("<<<M3848>>>" ++ check (runes_of_ascii "root packet _x {
+}
+
 /// triple
-		f32a
-=10	chars 	 // trailing space 
+root packet rootA {
+    @lengthOf(msg_type)
+    @calculatedFrom(""a	b"")
+    Z9_ {
+        repeat char[] msg_type `two words`,
+    },
+}
 
-  =
+options {
+    Logon = 7;
+    u8x = '0'
+    len = '\x00'
+    Foo = 10;
+}
 
-    ""\" ++ [233]%N ++ runes_of_ascii """
+MetaData leftPad {
+    // @lengthOf(
+    Packet i8i8 `a\`,
+    msg_type int `line1
+    line2`,
+    uint8x i8i8 `it's`,
+    BodyLength repeatCount,// packet A { u8 x, }
+}")).
+Eval vm_compute in ("<<<M4323>>>" ++ check (runes_of_ascii "
 
+  root
+    packet u128
+{
+	}
+    MetaData
+u128{
+int32 
+chars	,i8
+pack  // " ++ [27880; 37322]%N ++ runes_of_ascii "
+,
+
+    i8i8
+
+    options1
+,/// triple
+  char[]matchKey ,
+string	msg_type
+
+    `doc`//
+      ,
+    string
+	charz
+,
+} 
+        // `tick` ""quote"" 'q'
+  packet
+
+    // " ++ [128512]%N ++ runes_of_ascii " emoji
+    // @lengthOf(
+      BodyLength
+    {
+@lengthOf(As
+
+    )
+repeat
+_x
+	{
+    i64_
+    ,
+} , repeat char[
+    3
+    ]	roots ,	} ")).
+Eval vm_compute in ("<<<M1003>>>" ++ check (runes_of_ascii "options { Foo = ""packet""; }
+/// triple
+//	t
+options { // `tick` ""quote"" 'q'
 x
 =
-	uint8	;metadata
-    =42
-    ; lengthOf =true ;
-	}options {
-    // " ++ [27880; 37322]%N ++ runes_of_ascii "
-      // " ++ [128512]%N ++ runes_of_ascii " emoji
-BodyLength=
-	true ;  }
-")).
-Eval vm_compute in ("<<<M4319>>>" ++ check (runes_of_ascii "MetaData MetaDataX {
-    i64_ leftPad,
-    zchar[7] u8x `" ++ [28040; 24687; 31867; 22411]%N ++ runes_of_ascii "`,
-    zchar[00] crc `crlf
-    line`,
-    char[255] zchar,
-    u32 x `tab	here`,
-    i64_ falsey `it's`,
-}
-
-MetaData A {
-    char[7] calculatedFrom `two words`,
-    asx asx `tab	here`,
-    float64 trueish,
-    zchar[42] f32a `tab	here`,
-    char[] u128,
-}
-
-packet uint8x {
-    @tag(1)
-    repeat char[] Packet,
-}// c")).
-Eval vm_compute in ("<<<M4002>>>" ++ check (runes_of_ascii "
-packet	packetx {
-match
-	i64_ as  roots
-        // trailing space 
-    	// c
-  {
-	7 :	x
-42 :asx
-    // @lengthOf(
-    ,
-	65535
-: 
-i64_  [
-    00// `tick` ""quote"" 'q'
-  ,1 ]
-    : 
-Z9_ [	// c
-
-	""\n""
-	, 3 , 007]:
-    float,}
-,	}
+' ' ;
+} // @lengthOf(
 MetaData
-	metadata{	char[]
-
-    Header `" ++ [28040; 24687; 31867; 22411]%N ++ runes_of_ascii "` , Foo  stringy
-, uint64
-	body
-
-    ,
-f32
-a1  ,
-
-} packet
-    chars
-	{ 
-}
-")).
-Eval vm_compute in ("<<<M4444>>>" ++ check (runes_of_ascii "  MetaData
-
-u
-	{ 
-}
-options {
+// a // b
 // c
-  // @lengthOf(@x
-    float
-=
-int8; 
-rootA=false
-;As
-
-    = int16// `tick` ""quote"" 'q'
-
-	repeatCount
-    // trailing space 
-
-  =
-int16
-    ;	u8x=  
-      //	t
-    '\x00';} options{repeatCount	=
-	0
-
-    u128 
-	//
-	=	false
-;
-i64_  
-  // trailing space 
-    // `tick` ""quote"" 'q'
-=
-    '0'
-
-; //	t
-  }
-")).
-Eval vm_compute in ("<<<M330>>>" ++ check (runes_of_ascii "root packet calculatedFrom { @lengthOf( asx )	T{
-repeat
-/// triple
+calculatedFrom{ char[ 65535 ]asx , zchar stringy `
+`	, roots packetx
+    ,zchar[ 3 ] options1	, float	u8x ,char  asx
+    `doc`,
+} packet lengthOf
+// c
+// c
+{
+uint16 // a // b
+calculatedFrom
+    @calculatedFrom(""x y"" ) , } // packet A { u8 x, }")).
+Eval vm_compute in ("<<<M1109>>>" ++ check (runes_of_ascii "options{ tag
+    =10// @lengthOf(
+u =00  stringy =	""`tick`"" ;} options { MetaDataX=
+    1 } // packet A { u8 x, }
+options{ lengthOf=
+255 ; int =  ""// no comment"" ;	falsey// packet A { u8 x, }
+= zchar[ 3
+    ] ;
+    // @lengthOf(
+    } MetaData asx { }
+MetaData a1{ int16 x_y_z , lengthOf matchKey ,	uint8 u128
+, x packetx , i32 charz, repeatCount As , }")).
+Eval vm_compute in ("<<<M387>>>" ++ check (runes_of_ascii "packet
+    // @lengthOf(
+    x
+{ int8// packet A { u8 x, }
+T
+, }
+options	{
+    } packet Z9_
+{
+@lengthOf(
+    //	t
+    A
+    ) As
+@calculatedFrom(
+""x y"" )	,
+} MetaData
+//
+// " ++ [128512]%N ++ runes_of_ascii " emoji
+Logon
+    {
 //x
-packetx A  ,
-match // " ++ [27880; 37322]%N ++ runes_of_ascii "
-string_ as msg_type { [""abc""] :
-As 0123456789 :  repeatCount
-    , ""a\""b"" :
-roots, } , },uint8x BodyLength `{ , }`
-, string  BodyLength,@leftPad(
-    '\x00'
-) repeat calculatedFrom { uint32 //	t
-trueish ,/// triple
-}, // c
-} // a // b")).
-Eval vm_compute in ("<<<M3725>>>" ++ check (runes_of_ascii "
-options	{ 	 /// triple
-      }
-
-    MetaData
-Logon	// packet A { u8 x, }
-  { char[ 65535
-
-    ] i8i8 ,}
-
-options
-
-{u128
-	= 
-f64 options1 =
-	int8
-
-    ;Packet 
+//x
+pack
+    trueish
+, /// triple
+rootA charz ,
+    leftPad leftPad ,char[]Logon ,
+// a // b
 // " ++ [27880; 37322]%N ++ runes_of_ascii "
-    	=true;	falsey = char[
-255	] uint8x
+f64	matchKey ,falsey falsey `two words` ,}")).
+Eval vm_compute in ("<<<M4514>>>" ++ check (runes_of_ascii "// " ++ [128512]%N ++ runes_of_ascii " emoji
+options {
+}
 
-=
-    uint32
+packet a1 {
+    // packet A { u8 x, }
+    //x
+    @lengthOf(Foo)
+    pack {
+        repeat matchKey leftPad,
+        zchar[7] zchar `{ , }`,
+        charz @lengthOf(x_y_z) `
+        `,
+    },
+}
 
-;
-	}
-    MetaData 
-	//x
-  // trailing space 
-    	i64_{ } packet	BodyLength
-{ }	// a // b
-")).
-Eval vm_compute in ("<<<M2023>>>" ++ check (runes_of_ascii "MetaData
+root packet roots {
+}
+
+options {
+    calculatedFrom = false;
+    o = int64;
+    u = ""a\\""
+    zchar = 42;
+}")).
+Eval vm_compute in ("<<<M1983>>>" ++ check (runes_of_ascii "MetaData
     u { }  options {
 // c
 // @lengthOf(
@@ -1674,44 +1674,22 @@ repeatCount
     int16
 ; u8x =
     //	t
-    '\x00' ; } options	{
+    '\x00' ; string options	{
     repeatCount
 = 0
 u128
     //
-    = MetaDataX ; i64_
+    = false ; i64_
 // trailing space 
 // `tick` ""quote"" 'q'
 = '0' ; //	t
 }
 ")).
-Eval vm_compute in ("<<<M2016>>>" ++ check (runes_of_ascii "MetaData
+Eval vm_compute in ("<<<M1931>>>" ++ check (runes_of_ascii "MetaData
     u { }  options {
 // c
 // @lengthOf(
-float = int8 ;rootA =false ; As =	int16 // `tick` ""quote"" 'q'
-repeatCount
-    // trailing space 
-    =
-    int16
-; u8x =
-    //	t
-    '\x00' ; } options	{
-    repeatCount
-= 0
-u128
-    //
-    = = false ; i64_
-// trailing space 
-// `tick` ""quote"" 'q'
-= '0' ; //	t
-}
-")).
-Eval vm_compute in ("<<<M1863>>>" ++ check (runes_of_ascii "MetaData
-    ( { }  options {
-// c
-// @lengthOf(
-float = int8 ;rootA =false ; As =	int16 // `tick` ""quote"" 'q'
+float = int8 ;rootA =false ; As = =	int16 // `tick` ""quote"" 'q'
 repeatCount
     // trailing space 
     =
@@ -1729,29 +1707,7 @@ u128
 = '0' ; //	t
 }
 ")).
-Eval vm_compute in ("<<<M2012>>>" ++ check (runes_of_ascii "MetaData
-    u { }  options {
-// c
-// @lengthOf(
-float = int8 ;rootA =false ; As =	int16 // `tick` ""quote"" 'q'
-repeatCount
-    // trailing space 
-    =
-    int16
-; u8x =
-    //	t
-    '\x00' ; } options	{
-    repeatCount
-= 0
-=
-    //
-    u128 false ; i64_
-// trailing space 
-// `tick` ""quote"" 'q'
-= '0' ; //	t
-}
-")).
-Eval vm_compute in ("<<<M2033>>>" ++ check (runes_of_ascii "MetaData
+Eval vm_compute in ("<<<M2060>>>" ++ check (runes_of_ascii "MetaData
     u { }  options {
 // c
 // @lengthOf(
@@ -1767,297 +1723,389 @@ repeatCount
 = 0
 u128
     //
-    = false ; `
-`
+    = false ; i64_
+// trailing space 
+// `tick` ""quote"" 'q\'
+= '0' ; //	t
+}
+")).
+Eval vm_compute in ("<<<M1967>>>" ++ check (runes_of_ascii "MetaData
+    u { }  options {
+// c
+// @lengthOf(
+float = int8 ;rootA =false ; As =	int16 // `tick` ""quote"" 'q'
+repeatCount
+    // trailing space 
+    =
+    int16
+; u8x '\x00'
+    //	t
+    = ; } options	{
+    repeatCount
+= 0
+u128
+    //
+    = false ; i64_
 // trailing space 
 // `tick` ""quote"" 'q'
 = '0' ; //	t
 }
 ")).
-Eval vm_compute in ("<<<M4506>>>" ++ check (runes_of_ascii "  options
+Eval vm_compute in ("<<<M1910>>>" ++ check (runes_of_ascii "MetaData
+    u { }  options {
+// c
+// @lengthOf(
+float = int8 ;rootA false ; As =	int16 // `tick` ""quote"" 'q'
+repeatCount
+    // trailing space 
+    =
+    int16
+; u8x =
+    //	t
+    '\x00' ; } options	{
+    repeatCount
+= 0
+u128
+    //
+    = false ; i64_
+// trailing space 
+// `tick` ""quote"" 'q'
+= '0' ; //	t
+}
+")).
+Eval vm_compute in ("<<<M1953>>>" ++ check (runes_of_ascii "MetaData
+    u { }  options {
+// c
+// @lengthOf(
+float = int8 ;rootA =false ; As =	int16 // `tick` ""quote"" 'q'
+repeatCount
+    // trailing space 
+    =
     {
-chars 
-=
-
-    /// triple
-    char;  o 
-	    /// triple
-=
-
-true
-
+; u8x =
+    //	t
+    '\x00' ; } options	{
+    repeatCount
+= 0
 u128
+    //
+    = false ; i64_
+// trailing space 
+// `tick` ""quote"" 'q'
+= '0' ; //	t
+}
+")).
+Eval vm_compute in ("<<<M707>>>" ++ check (runes_of_ascii "MetaData u { u128 tag `
+`
+, zchar[ 10 ] pack `say ""hi""`, string metadata`doc` , } packet
+    chars
+    {	match
+    crc as trueish {
+    // " ++ [27880; 37322]%N ++ runes_of_ascii "
+    10: roots [ """ ++ [28040; 24687]%N ++ runes_of_ascii """ ,
+    """" ,4294967296 , ""\n"" ,
+007 ,
+    ""a\""b"" , """"
+, // `tick` ""quote"" 'q'
+42  ]  : string_ ""{,}"" :	x_y_z,} ,
+i8i8
+int, asx
+    ,}
+//	t
+")).
+Eval vm_compute in ("<<<M3594>>>" ++ check (runes_of_ascii "packet
+A 
+{
+u8
+    a
 
-= 
-""x y"" 
-;	}
-    packet	chars{@calculatedFrom(
+,
+} 
+packet
 
-    ""\n""	) repeat	f64 packetx ,@tag( 4294967296  )  float32
-	Header ,
+    B { u16 b	,
+} packet
+	C
+{
+u32
+c	, 
+}
+root	packet	M
+{ u16
+    Kc
+,
+u16  Kb
+, u16
+Ka , match
+	Kc as
+    X{
+	9
+:
 
-zchar[
+A ,10
+:
 
-007	]
-float
-    `// not a comment`
+B  ,	}
+, 
+match
 
-, }
-options {
-stringy
-	=	zchar[
-	7 ]
-	;
+Kb as Y {2 
+:
+C ,
+
+    1:	A
+    ,} , match
+	Ka  as
+Z
+
+    {
+1  :
+B,  } 
+,
+
+A,  B	,
+C 
+,
 
     }
 ")).
-Eval vm_compute in ("<<<M934>>>" ++ check (runes_of_ascii "packet metadata // `tick` ""quote"" 'q'
-{ Z9_ @lengthOf(
-// `tick` ""quote"" 'q'
-// @lengthOf(
-i64_)
-, }
-    packet pack
-// " ++ [27880; 37322]%N ++ runes_of_ascii "
-// " ++ [128512]%N ++ runes_of_ascii " emoji
+Eval vm_compute in ("<<<M3481>>>" ++ check (runes_of_ascii "// top
+packet
+    // c0
+chars
+    // c1
 {
-options1
-@lengthOf(asx
-    ),
-@leftPad( ' ' )
-@calculatedFrom(	""abc"" )
-// `tick` ""quote"" 'q'
-// trailing space 
-falsey , // trailing space 
-char[ 3 ] rootA  , }
-")).
-Eval vm_compute in ("<<<M3592>>>" ++ check (runes_of_ascii "packet A {
-    u8 a,
+    // c2
 }
-packet B {
-    u16 b,
-}
-packet C {
-    u32 c,
-}
-root packet M {
-    u16 Kc, u16 Kb, u16 Ka,
-    match Kc as X {
-        9 : A,
-        10 : B,
-    },
-    match Kb as Y {
-        2 : C,
-        1 : A,
-    },
-    match Ka as Z {
-        1 : B,
-    },
-    A, B, C,
-}
-")).
-Eval vm_compute in ("<<<M427>>>" ++ check (runes_of_ascii "packet
-    packetx { @tag( 7 ) @calculatedFrom( ""`tick`"" ) @calculatedFrom( ""a\\""
-)char[] int , @rightPad ( ' ' )	string// `tick` ""quote"" 'q'
-tag `tab	here`
-,@lengthOf(
-    asx
+    // c3
+packet
+    // c4
+MetaDataX
+    // c5
+{
+    // c6
+@tag(
+    // c7
+42
+    // c8
 )
-u8 // c
-repeatCount , @calculatedFrom(""// no comment"" )
-//x
-// trailing space 
-zchar[
-1] a1 ,}")).
-Eval vm_compute in ("<<<M1638>>>" ++ check (runes_of_ascii "packet
-//	t
-// trailing space 
-_x {
-// packet A { u8 x, }
-// c
-char[
-3
-    ] u8x @lengthOf(
-u8x ) , @calculatedFrom(""" ++ [128512]%N ++ runes_of_ascii """ // @lengthOf(
-)
-i16	Foo
-@lengthOf(	string_
-    )`doc`	, repeat	i64 metadata , @lengthOf( string_
-) i8 // c
-u  `line1
-line2` `line1
-line2`	,
-}
-")).
-Eval vm_compute in ("<<<M1084>>>" ++ check (runes_of_ascii "packet
-tag { int8 packetx , }packet Foo/// triple
-{//x
-repeatCount@calculatedFrom( ""x y"" /// triple
-)
-,char[00
-] As @lengthOf( a1 )
-`crlf
-line`
+    // c9
+i16
+    // c10
+string_
+    // c11
 ,
-    @tag( 10) len {  char[	10// " ++ [128512]%N ++ runes_of_ascii " emoji
-] matchKey `" ++ [233]%N ++ runes_of_ascii "` , f32a@lengthOf( u128
-    )
-    `it's` ,
-    } ,
+    // c12
+repeat
+    // c13
+x
+    // c14
+`say ""hi""`
+    // c15
+,
+    // c16
 }
+    // c17
 ")).
-Eval vm_compute in ("<<<M1553>>>" ++ check (runes_of_ascii "packet
-//	t
-// trailing space 
-_x {
-// packet A { u8 x, }
-// c
-char[
-3
-    ] u8x @lengthOf(
-u8x ) , @calculatedFrom(""" ++ [128512]%N ++ runes_of_ascii """ // @lengthOf(
-) )
-i16	Foo
-@lengthOf(	string_
-    )`doc`	, repeat	i64 metadata , @lengthOf( string_
-) i8 // c
-u  `line1
-line2`	,
-}
-")).
-Eval vm_compute in ("<<<M457>>>" ++ check (runes_of_ascii "packet options1 // a // b
-{ @leftPad ('0' )// " ++ [128512]%N ++ runes_of_ascii " emoji
-match uint8x as
-    // `tick` ""quote"" 'q'
-    T{
-42 : stringy ,[""1"" ] :i64_,//
-3
-:
-    string_
-    , ""a\\"" : metadata  , ""CRC32"" :
-int
-    //x
-    ""packet""
-:
-    rootA, } , } root packet i8i8
-{ }")).
-Eval vm_compute in ("<<<M1614>>>" ++ check (runes_of_ascii "packet
-//	t
-// trailing space 
-_x {
-// packet A { u8 x, }
-// c
-char[
-3
-    ] u8x @lengthOf(
-u8x ) , @calculatedFrom(""" ++ [128512]%N ++ runes_of_ascii """ // @lengthOf(
-)
-i16	Foo
-@lengthOf(	string_
-    )`doc`	, repeat	i64 metadata , string_ @lengthOf(
-) i8 // c
-u  `line1
-line2`	,
-}
-")).
-Eval vm_compute in ("<<<M1620>>>" ++ check (runes_of_ascii "packet
-//	t
-// trailing space 
-_x {
-// packet A { u8 x, }
-// c
-char[
-3
-    ] u8x @lengthOf(
-u8x ) , @calculatedFrom(""" ++ [128512]%N ++ runes_of_ascii """ // @lengthOf(
-)
-i16	Foo
-@lengthOf(	string_
-    )`doc`	, repeat	i64 metadata , @lengthOf( @tag(
-) i8 // c
-u  `line1
-line2`	,
-}
-")).
-Eval vm_compute in ("<<<M1617>>>" ++ check (runes_of_ascii "packet
-//	t
-// trailing space 
-_x {
-// packet A { u8 x, }
-// c
-char[
-3
-    ] u8x @lengthOf(
-u8x ) , @calculatedFrom(""" ++ [128512]%N ++ runes_of_ascii """ // @lengthOf(
-)
-i16	Foo
-@lengthOf(	string_
-    )`doc`	, repeat	i64 metadata , @lengthOf( 
-) i8 // c
-u  `line1
-line2`	,
-}
-")).
-Eval vm_compute in ("<<<M1652>>>" ++ check (runes_of_ascii "packet
-//	t
-// trailing space 
-_x {
-// packet A { u8 x, }
-// c
-char[
-3
-    ] u8x @lengthOf(
-u8x ) , @calculatedFrom(""" ++ [128512]%N ++ runes_of_ascii """ // @lengthOf(
-)
-i16	Foo
-@lengthOf(	string_
-    )`doc`	, repeat	i64 metadata , @lengthOf( string_
-) i8 // c
-u  `line1")).
-Eval vm_compute in ("<<<M2014>>>" ++ check (runes_of_ascii "MetaData
-    u { }  options {
-// c
+Eval vm_compute in ("<<<M597>>>" ++ check (runes_of_ascii "
+root packet
+a1  {repeat
+    string x
+`// not a comment`	,
+//x
 // @lengthOf(
-float = int8 ;rootA =false ; As =	int16 // `tick` ""quote"" 'q'
-repeatCount
-    // trailing space 
-    =
-    int16
-; u8x =
-    //	t
-    '\x00' ; } options	{
-    repeatCount
-= 0")).
-Eval vm_compute in ("<<<M4556>>>" ++ check (runes_of_ascii "
-
-  options
-{
-	i64_
-=
-true}
-root 
-packet	// c
-repeatCount{
-	u32	Foo//	t
-    	,int8
-
-    rootA
-	, 
-zchar[0
-	] MetaDataX,@calculatedFrom(
-	""a\""b""  )	char o  , 	 // " ++ [128512]%N ++ runes_of_ascii " emoji
-
+}options
+//
+//	t
+{ stringy
+= true } packet msg_type { @rightPad ( '\x00'
+    // " ++ [27880; 37322]%N ++ runes_of_ascii "
+    ) match crc
+as packetx
+{ 65535 :body , 65535 :
+T,	}
+    , //x
+stringy
+    ,u32 roots, uint32 body , }")).
+Eval vm_compute in ("<<<M651>>>" ++ check (runes_of_ascii "packet trueish {repeat As,	repeat uint8 repeatCount
+, @tag( 255) match a1 as x_y_z{  3
+    : i8i8 ,
+    ""abc""
+    : Z9_, 007
+/// triple
+//
+: leftPad 65535
+    : x_y_z ""a\""b"" :matchKey, } , @rightPad(' '
+) // `tick` ""quote"" 'q'
+string packetx , // " ++ [128512]%N ++ runes_of_ascii " emoji
 }
-
-packet i64_
-{ } 	 //
-  	packet
-    Foo{}
 ")).
-Eval vm_compute in ("<<<M1742>>>" ++ check (runes_of_ascii "options { trueish = ""`tick`"" ; string_= """ ++ [233]%N ++ runes_of_ascii "t" ++ [233]%N ++ runes_of_ascii """
+Eval vm_compute in ("<<<M1548>>>" ++ check (runes_of_ascii "packet
+//	t
+// trailing space 
+_x {
+// packet A { u8 x, }
+// c
+char[
+3
+    ] u8x @lengthOf(
+u8x ) , @calculatedFrom(""" ++ [128512]%N ++ runes_of_ascii """ """ ++ [128512]%N ++ runes_of_ascii """ // @lengthOf(
+)
+i16	Foo
+@lengthOf(	string_
+    )`doc`	, repeat	i64 metadata , @lengthOf( string_
+) i8 // c
+u  `line1
+line2`	,
+}
+")).
+Eval vm_compute in ("<<<M1655>>>" ++ check (runes_of_ascii "packet
+//	t
+// trailing space 
+_x {
+// packet A { u8 x, }
+// c
+char[
+3
+    ] u8x @lengthOf(
+u8x ) < , @calculatedFrom(""" ++ [128512]%N ++ runes_of_ascii """ // @lengthOf(
+)
+i16	Foo
+@lengthOf(	string_
+    )`doc`	, repeat	i64 metadata , @lengthOf( string_
+) i8 // c
+u  `line1
+line2`	,
+}
+")).
+Eval vm_compute in ("<<<M1519>>>" ++ check (runes_of_ascii "packet
+//	t
+// trailing space 
+_x {
+// packet A { u8 x, }
+// c
+char[
+3
+    ] @lengthOf( u8x
+u8x ) , @calculatedFrom(""" ++ [128512]%N ++ runes_of_ascii """ // @lengthOf(
+)
+i16	Foo
+@lengthOf(	string_
+    )`doc`	, repeat	i64 metadata , @lengthOf( string_
+) i8 // c
+u  `line1
+line2`	,
+}
+")).
+Eval vm_compute in ("<<<M75>>>" ++ check (runes_of_ascii "MetaData calculatedFrom { // @lengthOf(
+tag a1
+, uint8 _x`crlf
+line`,
+// " ++ [27880; 37322]%N ++ runes_of_ascii "
+// packet A { u8 x, }
+string
+    Z9_ ,uint8x A`line1
+line2` ,char falsey , packetx Foo
+,  }
+MetaData body {
+string x_y_z``
+    , falsey zchar `line1
+line2` , } options{ }
+")).
+Eval vm_compute in ("<<<M1061>>>" ++ check (runes_of_ascii "packet uint8x{ char[	42
+    ]i64_ @lengthOf( crc
+// `tick` ""quote"" 'q'
+//x
+) `a\`, @calculatedFrom(  ""{,}"") @calculatedFrom( ""\" ++ [233]%N ++ runes_of_ascii """ ) repeat
+    i16 rootA`// not a comment` , // @lengthOf(
+As
+@lengthOf(falsey
+) , @lengthOf(pack
+)
+int64 packetx	, }
+")).
+Eval vm_compute in ("<<<M3934>>>" ++ check (runes_of_ascii "
+
+  root
+
+packet repeatCount {
+T
+	{ char[
+	255  ]
+	T
     // c
-    } root
-    packet body { stringy stringy @calculatedFrom(
+  // packet A { u8 x, }
+	`a\`
+    ,
+
+zchar[
+	00  // trailing space 
+  	]Foo@lengthOf(
+repeatCount )// " ++ [128512]%N ++ runes_of_ascii " emoji
+		,  Foo
+	x_y_z , packetx@calculatedFrom(
+    ""packet"")	// " ++ [27880; 37322]%N ++ runes_of_ascii "
+
+,},	}")).
+Eval vm_compute in ("<<<M89>>>" ++ check (runes_of_ascii "//	t
+packet
+packetx { zchar , @lengthOf( x_y_z )o ,
+}
+    packet  Packet // " ++ [128512]%N ++ runes_of_ascii " emoji
+{ match u128 as // a // b
+Header{ [
+    7
+    ,""1""
+]: u
+    , ""x y"" :
+charz 0123456789 : calculatedFrom
+//	t
+//x
+} ,// " ++ [27880; 37322]%N ++ runes_of_ascii "
+repeat  roots
+tag
+    ,}")).
+Eval vm_compute in ("<<<M1636>>>" ++ check (runes_of_ascii "packet
+//	t
+// trailing space 
+_x {
+// packet A { u8 x, }
+// c
+char[
+3
+    ] u8x @lengthOf(
+u8x ) , @calculatedFrom(""" ++ [128512]%N ++ runes_of_ascii """ // @lengthOf(
+)
+i16	Foo
+@lengthOf(	string_
+    )`doc`	, repeat	i64 metadata , @lengthOf( string_
+) i8")).
+Eval vm_compute in ("<<<M4314>>>" ++ check (runes_of_ascii "
+packet A {
+
+    @rightPad
+    (  ' '
+    )/// triple
+
+	@calculatedFrom( """ ++ [233]%N ++ runes_of_ascii "t" ++ [233]%N ++ runes_of_ascii """  ) int16
+
+    crc
+
+`tab	here`	// " ++ [128512]%N ++ runes_of_ascii " emoji
+    ,
+    }
+MetaData
+x 
+	// `tick` ""quote"" 'q'
+// " ++ [27880; 37322]%N ++ runes_of_ascii "
+	{
+    } 
+	    // trailing space 
+")).
+Eval vm_compute in ("<<<M1719>>>" ++ check (runes_of_ascii "options { trueish = ""`tick`"" ; string_= """ ++ [233]%N ++ runes_of_ascii "t" ++ [233]%N ++ runes_of_ascii """
+    // c
+    MetaDataX root
+    packet body { stringy @calculatedFrom(
 ""a	b"" ) `line1
 line2` , }
 packet Logon {
@@ -2066,12 +2114,12 @@ packet Logon {
 u16 string_ `u8 x,` ,
 }
 ")).
-Eval vm_compute in ("<<<M1769>>>" ++ check (runes_of_ascii "options { trueish = ""`tick`"" ; string_= """ ++ [233]%N ++ runes_of_ascii "t" ++ [233]%N ++ runes_of_ascii """
+Eval vm_compute in ("<<<M1709>>>" ++ check (runes_of_ascii "options { trueish = ""`tick`"" ; string_""abc"" """ ++ [233]%N ++ runes_of_ascii "t" ++ [233]%N ++ runes_of_ascii """
     // c
     } root
     packet body { stringy @calculatedFrom(
 ""a	b"" ) `line1
-line2` char[ }
+line2` , }
 packet Logon {
     @leftPad(
     ' ' ) //	t
@@ -2102,7 +2150,7 @@ packet Logon {
 u16 string_ `u8 x,` ,
 }
 ")).
-Eval vm_compute in ("<<<M1686>>>" ++ check (runes_of_ascii "options { trueish  ""`tick`"" ; string_= """ ++ [233]%N ++ runes_of_ascii "t" ++ [233]%N ++ runes_of_ascii """
+Eval vm_compute in ("<<<M1676>>>" ++ check (runes_of_ascii "options  trueish = ""`tick`"" ; string_= """ ++ [233]%N ++ runes_of_ascii "t" ++ [233]%N ++ runes_of_ascii """
     // c
     } root
     packet body { stringy @calculatedFrom(
@@ -2126,43 +2174,39 @@ packet Logon {
 u16 string_ `u8 x,` ,
 }
 ")).
-Eval vm_compute in ("<<<M3534>>>" ++ check (runes_of_ascii "// top
-packet // c0
-Inner
-    // c1
-{ u8 a , // c5
-} root packet // c8
-P
-    // c9
-{ // c10
-Inner
-    // c11
-ref_obj // c12
-, // c13a
-  // c13b
-u8 // c14
-x
-    // c15
-, // c16a
-  // c16b
-} // c17
+Eval vm_compute in ("<<<M110>>>" ++ check (runes_of_ascii "packet i64_
+{	@tag( // a // b
+0123456789) x_y_z@calculatedFrom( ""it's"" ) , @rightPad ( ' ' ) @tag( 007
+    ) leftPad {
+    zchar[00 ]Pad , }
+,int32 _x@lengthOf( BodyLength
+/// triple
+//
+) ,
+}
 ")).
-Eval vm_compute in ("<<<M4097>>>" ++ check (runes_of_ascii "  packet 	 // c
-Pad  { @calculatedFrom(
+Eval vm_compute in ("<<<M3609>>>" ++ check (runes_of_ascii "root packet
+	Frame
 
-    ""1"")
+    {	u8
+	K
+	,Logon
 
-    pack	//
-  	leftPad
-    `doc`	,	char[ /// triple
-	007
-
-] i8i8 @calculatedFrom(""// no comment"") , } options//
-		{
-pack
-
-='\x00'
-; }")).
+    first  , match K	as
+Body{
+	1: Logon , 
+2 
+:
+Logout	,
+    }
+    , }packet Logon{ string
+user ,
+}
+    packet Logout
+	{ u16
+    reason
+,	}
+")).
 Eval vm_compute in ("<<<M404>>>" ++ check (runes_of_ascii "MetaData
     Header { A float , } MetaData Pad { // trailing space 
 string float `a\` ,
@@ -2171,113 +2215,117 @@ char[] tag
     // packet A { u8 x, }
     matchKey BodyLength ,char[ 65535 ] Header
 , }")).
-Eval vm_compute in ("<<<M3980>>>" ++ check (runes_of_ascii "options {
-    metadata = char[10]
-    tag = 007;
-    stringy = 0;
-    x_y_z = true;
-}
-
-root packet o {
-    @tag(3)
-    @leftPad('0')
-    @tag(00)
-    i64_ @lengthOf(falsey),
+Eval vm_compute in ("<<<M4518>>>" ++ check (runes_of_ascii "packet A {
+    match k as n {
+        [
+            ""a"", ""bb"", ""c c"", ""d"", ""e"",
+            ""f"", ""g"", ""h"", ""i"", ""j"",
+            ""k"", ""l""
+        ] : B,
+        2 : C,
+    },
 }")).
-Eval vm_compute in ("<<<M997>>>" ++ check (runes_of_ascii "options { int = zchar[ // packet A { u8 x, }
-65535] ; zchar
-//x
-// trailing space 
-=  ' ' ;
-chars= // packet A { u8 x, }
-""\" ++ [233]%N ++ runes_of_ascii """ ;
-    Z9_  = '\x00' ;x_y_z = //	t
-false }")).
-Eval vm_compute in ("<<<M4408>>>" ++ check (runes_of_ascii "
-
-  packet 
-A
-    { 
-match k	as
-	n
-
-    {
-[
-    ""a"" ,
-
-22 , ""c c"" , 
-4,
-
-    ""e""
-	,	66	, ""g""	,
-    8
-
-,	""i"" ,
-	10 ] :
-
-    B 2
-
-    :  C
-    }
-
-    ,
-
+Eval vm_compute in ("<<<M4116>>>" ++ check (runes_of_ascii "MetaData calculatedFrom {
+    Foo uint8x,
+    o Packet `a\`,
+    int8 Packet,
+    As calculatedFrom,
 }
+
+options {
+    T = u64;
+    stringy = f64;
+    BodyLength = true;
+}")).
+Eval vm_compute in ("<<<M4497>>>" ++ check (runes_of_ascii "
+// " ++ [128512]%N ++ runes_of_ascii " emoji
+	  packet// @lengthOf(
+    	string_ {
+
+@calculatedFrom(
+""" ++ [233]%N ++ runes_of_ascii "t" ++ [233]%N ++ runes_of_ascii """	)  repeat i64 MetaDataX
+,
+u64	i8i8 `a\` ,As 
+      //
+// " ++ [27880; 37322]%N ++ runes_of_ascii "
+,// packet A { u8 x, }
+	}")).
+Eval vm_compute in ("<<<M2105>>>" ++ check (runes_of_ascii "options{
+_x
+= true
+} options options
+{ o	= /// triple
+false
+    ; chars
+= ""\n"" } root packet	Pad
+/// triple
+// packet A { u8 x, }
+{	chars
+    // a // b
+    ,}")).
+Eval vm_compute in ("<<<M2344>>>" ++ check (runes_of_ascii "// c
+packet x {'1' @lengthOf( metadata ) repeat lengthOf
+,a1{
+trueish	,// c
+repeat//	t
+MetaDataX , } , zchar[
+    42	] rootA // `tick` ""quote"" 'q'
+,
+    }
 ")).
-Eval vm_compute in ("<<<M2152>>>" ++ check (runes_of_ascii "options{
+Eval vm_compute in ("<<<M2085>>>" ++ check (runes_of_ascii "options{
+_x _x
+= true
+} options
+{ o	= /// triple
+false
+    ; chars
+= ""\n"" } root packet	Pad
+/// triple
+// packet A { u8 x, }
+{	chars
+    // a // b
+    ,}")).
+Eval vm_compute in ("<<<M2203>>>" ++ check (runes_of_ascii "options{
+_x
+= true
+} options
+{ o	= /// triple
+false
+    ; $ chars
+= ""\n"" } root packet	Pad
+/// triple
+// packet A { u8 x, }
+{	chars
+    // a // b
+    ,}")).
+Eval vm_compute in ("<<<M2200>>>" ++ check (runes_of_ascii "options{
 _x
 = true
 } options
 { o	= /// triple
 false
     ; chars
-= ""\n"" ""`tick`"" root packet	Pad
+= ""\n"" } root packet	Pad
+/// triple
+// packet A { u?8 x, }
+{	chars
+    // a // b
+    ,}")).
+Eval vm_compute in ("<<<M2146>>>" ++ check (runes_of_ascii "options{
+_x
+= true
+} options
+{ o	= /// triple
+false
+    ; chars
+= } ""\n"" root packet	Pad
 /// triple
 // packet A { u8 x, }
 {	chars
     // a // b
     ,}")).
-Eval vm_compute in ("<<<M2376>>>" ++ check (runes_of_ascii "// c
-packet x { @lengthOf( metadata ) repeat lengthOf
-,char[{
-trueish	,// c
-repeat//	t
-MetaDataX , } , zchar[
-    42	] rootA // `tick` ""quote"" 'q'
-,
-    }
-")).
-Eval vm_compute in ("<<<M2328>>>" ++ check (runes_of_ascii "// c
-p?acket x { @lengthOf( metadata ) repeat lengthOf
-,a1{
-trueish	,// c
-repeat//	t
-MetaDataX , } , zchar[
-    42	] rootA // `tick` ""quote"" 'q'
-,
-    }
-")).
-Eval vm_compute in ("<<<M2350>>>" ++ check (runes_of_ascii "// c
-packet x { metadata @lengthOf( ) repeat lengthOf
-,a1{
-trueish	,// c
-repeat//	t
-MetaDataX , } , zchar[
-    42	] rootA // `tick` ""quote"" 'q'
-,
-    }
-")).
-Eval vm_compute in ("<<<M2375>>>" ++ check (runes_of_ascii "// c
-packet x { @lengthOf( metadata ) repeat lengthOf
-,a1{
-trueish	,// c
-repeat//	t
-MetaDataX ,  , zchar[
-    42	] rootA // `tick` ""quote"" 'q'
-,
-    }
-")).
-Eval vm_compute in ("<<<M2176>>>" ++ check (runes_of_ascii "options{
+Eval vm_compute in ("<<<M2179>>>" ++ check (runes_of_ascii "options{
 _x
 = true
 } options
@@ -2287,348 +2335,358 @@ false
 = ""\n"" } root packet	Pad
 /// triple
 // packet A { u8 x, }
-{	,
+{	chars
     // a // b
-    chars}")).
-Eval vm_compute in ("<<<M2167>>>" ++ check (runes_of_ascii "options{
+    }")).
+Eval vm_compute in ("<<<M2094>>>" ++ check (runes_of_ascii "options{
+_x
+= 
+} options
+{ o	= /// triple
+false
+    ; chars
+= ""\n"" } root packet	Pad
+/// triple
+// packet A { u8 x, }
+{	chars
+    // a // b
+    ,}")).
+Eval vm_compute in ("<<<M4489>>>" ++ check (runes_of_ascii "packet roots {
+    zchar @lengthOf(calculatedFrom) `" ++ [233]%N ++ runes_of_ascii "`,
+    zchar[1] Foo `
+        `,
+}
+
+options {
+    i64_ = ""a\\""
+    Logon = 1
+    i64_ = i64
+}")).
+Eval vm_compute in ("<<<M1320>>>" ++ check (runes_of_ascii "options { } root
+    packet Packet { Packet
+i8i8
+// `tick` ""quote"" 'q'
+/// triple
+`
+`,}
+    options { asx  ='\x00'; //
+} MetaData Packet
+{ }
+")).
+Eval vm_compute in ("<<<M4085>>>" ++ check (runes_of_ascii "packet A {
+    match k as n {
+        [
+            ""a"", 22, ""c c"", 4, ""e"",
+            66, ""g"", 8
+        ] : B,
+        2 : C,
+    },
+}")).
+Eval vm_compute in ("<<<M335>>>" ++ check (runes_of_ascii "MetaData u { BodyLength repeatCount // packet A { u8 x, }
+,
+} options {
+string_
+= false ; i8i8=10 ;}
+    root packet float { } //")).
+Eval vm_compute in ("<<<M3784>>>" ++ check (runes_of_ascii "options {
+    // " ++ [27880; 37322]%N ++ runes_of_ascii "
+    zchar = zchar[7];
+    asx = 10;
+    zchar = ""a\\"";
+    float = 10
+    Logon = '0';
+}
+
+MetaData crc {
+}")).
+Eval vm_compute in ("<<<M1949>>>" ++ check (runes_of_ascii "MetaData
+    u { }  options {
+// c
+// @lengthOf(
+float = int8 ;rootA =false ; As =	int16 // `tick` ""quote"" 'q'
+repeatCount")).
+Eval vm_compute in ("<<<M3320>>>" ++ check (runes_of_ascii "root packet matchKey { zchar[ // c
+3 ] pack @calculatedFrom( ""a	b"" ) `doc` , } options { } MetaData A { int8 msg_type , }")).
+Eval vm_compute in ("<<<M3352>>>" ++ check (runes_of_ascii "root packet matchKey { zchar[ 3 ] pack @calculatedFrom( ""a	b"" ) `doc` , } options { } MetaData A { int8 // c
+msg_type , }")).
+Eval vm_compute in ("<<<M689>>>" ++ check (runes_of_ascii "options { packetx
+=
+255 ; }
+packet float
+{ repeat
+    //
+    f64 metadata `
+`
+//	t
+//	t
+,}
+MetaData leftPad {
+} //x")).
+Eval vm_compute in ("<<<M1439>>>" ++ check (runes_of_ascii "
+packet
+    falsey { Header@calculatedFrom(""packet""  ) , 0123456789
+    char[ ] packetx
+    , } // `tick` ""quote"" 'q'")).
+Eval vm_compute in ("<<<M4406>>>" ++ check (runes_of_ascii "  MetaData
+	float 
+{float64	charz 
+`
+`
+,
+
+    }
+root	packet
+	chars
+    {
+    @rightPad (  '0' 	 // c
+
+) 
+Foo
+,}
+")).
+Eval vm_compute in ("<<<M1412>>>" ++ check (runes_of_ascii "
+packet
+    falsey { @calculatedFrom(""packet""  ) , char[
+    0123456789 ] packetx
+    , } // `tick` ""quote"" 'q'")).
+Eval vm_compute in ("<<<M1755>>>" ++ check (runes_of_ascii "options { trueish = ""`tick`"" ; string_= """ ++ [233]%N ++ runes_of_ascii "t" ++ [233]%N ++ runes_of_ascii """
+    // c
+    } root
+    packet body { stringy @calculatedFrom(")).
+Eval vm_compute in ("<<<M505>>>" ++ check (runes_of_ascii "options // a // b
+{
+    crc = '0'  ;_x=""a\""b""
+trueish
+    = char[1  ] charz// c
+= 00 ;As =// c
+""a\""b"" }
+")).
+Eval vm_compute in ("<<<M1080>>>" ++ check (runes_of_ascii "root packet Pad {
+float64
+// a // b
+//x
+Pad@lengthOf(repeatCount)
+,@lengthOf( _x ) BodyLength o
+,
+}
+")).
+Eval vm_compute in ("<<<M2355>>>" ++ check (runes_of_ascii "// c
+packet x { @lengthOf( metadata ) repeat lengthOf
+,a1{
+trueish	,// c
+repeat//	t
+MetaDataX , } ,")).
+Eval vm_compute in ("<<<M46>>>" ++ check (runes_of_ascii "packet rootA{ }
+options
+{ uint8x =//	t
+u32 ; i64_
+=	255 ;
+len
+    = ' '
+    ;
+    } // @lengthOf(")).
+Eval vm_compute in ("<<<M2627>>>" ++ check (runes_of_ascii "packet A { @rightPad(' ') @lengthOf(b) @calculatedFrom(""c"") @tag(007) match k as n { 1 : B }, }")).
+Eval vm_compute in ("<<<M3751>>>" ++ check (runes_of_ascii "packet chars {
+}
+
+packet MetaDataX {
+    @tag(42)
+    i16 string_,
+    repeat x `say ""hi""`,
+}")).
+Eval vm_compute in ("<<<M4540>>>" ++ check (runes_of_ascii "  packet  u	{
+    repeat uint64
+	Pad
+
+`a\`,
+
+    }packet	string_ {	repeat	a1 Packet
+
+,
+} ")).
+Eval vm_compute in ("<<<M3267>>>" ++ check (runes_of_ascii "// c
+MetaData float { float64 charz `
+` , } root packet chars { @rightPad ( '0' ) Foo , }")).
+Eval vm_compute in ("<<<M3300>>>" ++ check (runes_of_ascii "MetaData float { float64 charz `
+` , } root packet chars { @rightPad ( '0' )
+// c
+Foo , }")).
+Eval vm_compute in ("<<<M3511>>>" ++ check (runes_of_ascii "packet chars { } packet MetaDataX { @tag( 42 ) i16 string_ , repeat // c
+x `say ""hi""` , }")).
+Eval vm_compute in ("<<<M275>>>" ++ check (runes_of_ascii "options {BodyLength=	""abc"" ;
+int	=
+""""
+; chars
+    = true	body
+    =
+// c
+//
+'\x00'
+}
+")).
+Eval vm_compute in ("<<<M535>>>" ++ check (runes_of_ascii "packet chars
+    //
+    { i8 body @lengthOf( crc), repeat char[] zchar , body
+`
+` , }")).
+Eval vm_compute in ("<<<M3219>>>" ++ check (runes_of_ascii "packet metadata { Logon // c
+{ A `" ++ [28040; 24687; 31867; 22411]%N ++ runes_of_ascii "` , tag o , } , zchar len `// not a comment` , }")).
+Eval vm_compute in ("<<<M561>>>" ++ check (runes_of_ascii "MetaData body {
+string asx
+,
+asx// a // b
+int , u128 a1
+    ,
+int32 len
+    ,
+    }
+")).
+Eval vm_compute in ("<<<M3442>>>" ++ check (runes_of_ascii "packet o { repeat Logon uint8x ,
+// c
+} options { asx = zchar[ 3 ] stringy = '\x00' }")).
+Eval vm_compute in ("<<<M2945>>>" ++ check (runes_of_ascii "packet A {
+  match k as n {
+    [1, 22, ""c c"", 4, 5, ""f"", 7, 8] : B
+    2 : C
+  },
+}")).
+Eval vm_compute in ("<<<M496>>>" ++ check (runes_of_ascii "
+options { repeatCount = ""a	b"" ;As = ' '
+    ;
+    len= true ;string_ = int16 ; }
+")).
+Eval vm_compute in ("<<<M3417>>>" ++ check (runes_of_ascii "MetaData body { i64 pack `it's` , } packet stringy { int16
+// c
+calculatedFrom , }")).
+Eval vm_compute in ("<<<M1934>>>" ++ check (runes_of_ascii "MetaData
+    u { }  options {
+// c
+// @lengthOf(
+float = int8 ;rootA =false ; As")).
+Eval vm_compute in ("<<<M1451>>>" ++ check (runes_of_ascii "
+packet
+    falsey { Header@calculatedFrom(""packet""  ) , char[
+    0123456789")).
+Eval vm_compute in ("<<<M2158>>>" ++ check (runes_of_ascii "options{
 _x
 = true
 } options
 { o	= /// triple
 false
     ; chars
-= ""\n"" } root packet	=
-/// triple
-// packet A { u8 x, }
-{	chars
-    // a // b
-    ,}")).
-Eval vm_compute in ("<<<M15>>>" ++ check (runes_of_ascii "options { matchKey
-    =
-10 } MetaData options1{
-    matchKey o `doc` , rootA tag
-,uint32 _x /// triple
-`line1
-line2`, char[] chars `say ""hi""`,  }")).
-Eval vm_compute in ("<<<M4374>>>" ++ check (runes_of_ascii "//
-packet int {
-    @leftPad('\x00')
-    MetaDataX @lengthOf(u128),
-    u a1 `doc`,
-    @calculatedFrom(""a\""b"")
-    i16 repeatCount `tab	here`,
-}")).
-Eval vm_compute in ("<<<M417>>>" ++ check (runes_of_ascii "  options {  }
-root  packet i8i8 { } packet
-asx {
-    f64
-pack,@calculatedFrom( ""a\\""	)zchar[	255	]rootA `it's`
-    // c
-    , // " ++ [27880; 37322]%N ++ runes_of_ascii "
-} // " ++ [27880; 37322]%N)).
-Eval vm_compute in ("<<<M3525>>>" ++ check (runes_of_ascii "root packet
+= ""\n"" }")).
+Eval vm_compute in ("<<<M3892>>>" ++ check (runes_of_ascii "
+options
+{ trueish
+    =f64	; 
+i8i8	=
+
+int16
+	;
+	rootA=
+	""`tick`"" ;
+
+}
+")).
+Eval vm_compute in ("<<<M2351>>>" ++ check (runes_of_ascii "// c
+packet x { @lengthOf( metadata ) repeat lengthOf
+,a1{
+trueish	,")).
+Eval vm_compute in ("<<<M4485>>>" ++ check (runes_of_ascii "
+options  {
+
+u8x
+    =	/// triple
+	  zchar[
+	00
+
+    ]
+    ; }
+")).
+Eval vm_compute in ("<<<M2922>>>" ++ check (runes_of_ascii "packet A { Inner { match k as n { [1,22,007,4,5,66] : B, }, }, }")).
+Eval vm_compute in ("<<<M3468>>>" ++ check (runes_of_ascii "// top
+MetaData
+    // c0
+o
     // c1
-P
-    // c2
-{ // c3a
-  // c3b
-char // c4a
-  // c4b
-c , // c6
-u8 // c7a
-  // c7b
-x , // c9a
-  // c9b
-}
-    // c10
-")).
-Eval vm_compute in ("<<<M1285>>>" ++ check (runes_of_ascii "root	packet rootA
-/// triple
-//	t
 {
-    @lengthOf( A) zchar[
-    65535 ]len	`a\` ,  } root packet
-packetx
-{ uint8 i8i8 , }
-// c
-")).
-Eval vm_compute in ("<<<M4294>>>" ++ check (runes_of_ascii "packet 
-
-    //	t
-	//x
-    As
-
-{ matchKey
-@lengthOf(	string_),
-
-    matchKey
-    `say ""hi""`  // packet A { u8 x, }
-  , }
-
-")).
-Eval vm_compute in ("<<<M1435>>>" ++ check (runes_of_ascii "
-packet
-    falsey { Header@calculatedFrom(""packet""  ) zchar[ char[
-    0123456789 ] packetx
-    , } // `tick` ""quote"" 'q'")).
-Eval vm_compute in ("<<<M3326>>>" ++ check (runes_of_ascii "root packet matchKey { zchar[ 3 ] pack // c
-@calculatedFrom( ""a	b"" ) `doc` , } options { } MetaData A { int8 msg_type , }")).
-Eval vm_compute in ("<<<M3542>>>" ++ check (runes_of_ascii "packet B {
-    u8 a,
+    // c2
 }
-root packet P {
-    u8 K,
-    u8 L @lengthOf(Body),
-    match K as Body {
-        1 : B,
-    },
-}
+    // c3
 ")).
-Eval vm_compute in ("<<<M1482>>>" ++ check (runes_of_ascii "
-packet
-    falsey { Header@calculatedFrom(""packet""  ) , char[
-    0123456789 ] packetx
-  #  , } // `tick` ""quote"" 'q'")).
-Eval vm_compute in ("<<<M307>>>" ++ check (runes_of_ascii "
-packet Logon // " ++ [27880; 37322]%N ++ runes_of_ascii "
-{f32 _x
-,} MetaData u8x {float32 leftPad, tag
-    leftPad `say ""hi""`
-    ,i16 tag `say ""hi""`,}
-")).
-Eval vm_compute in ("<<<M6>>>" ++ check (runes_of_ascii "root	packet
-    charz { // " ++ [128512]%N ++ runes_of_ascii " emoji
-repeat char[65535
-]
-options1,} options  { As=
-    //
-    ""\n""
-    } // a // b")).
-Eval vm_compute in ("<<<M808>>>" ++ check (runes_of_ascii "MetaData string_{ Header
-    u128`tab	here` ,i64 Z9_
-// " ++ [27880; 37322]%N ++ runes_of_ascii "
-/// triple
-, x matchKey
-,string
-u, f64
-    Foo, }
-
-")).
-Eval vm_compute in ("<<<M3698>>>" ++ check (runes_of_ascii "
-packet o
-
-{ 
+Eval vm_compute in ("<<<M3364>>>" ++ check (runes_of_ascii "
 // c
-repeat  Logon
-    uint8x
-
-    ,
-	} options {
-    asx
-=  zchar[ 3	]
-stringy  ='\x00'
-
-}")).
-Eval vm_compute in ("<<<M2993>>>" ++ check (runes_of_ascii "packet A {
+packet x { @rightPad ( ) repeat roots Logon `doc` , }")).
+Eval vm_compute in ("<<<M3376>>>" ++ check (runes_of_ascii "packet x { @rightPad ( )
+// c
+repeat roots Logon `doc` , }")).
+Eval vm_compute in ("<<<M2858>>>" ++ check (runes_of_ascii "packet A {
   match k as n {
-    [1, ""bb"", 007, ""d"", 5, ""f"", 7, ""h"", 9, ""j"", 11, ""l""] : B
+    [1] : B
     2 : C
   },
 }")).
-Eval vm_compute in ("<<<M3866>>>" ++ check (runes_of_ascii "packet chars {
-}
-
-packet MetaDataX {
-    @tag(42)
-    // c
-    i16 string_,
-    repeat x `say ""hi""`,
-}")).
-Eval vm_compute in ("<<<M26>>>" ++ check (runes_of_ascii "options // " ++ [27880; 37322]%N ++ runes_of_ascii "
-{Packet = 4294967296
-; i64_  = // c
-""1"" ;	Z9_ = ""abc"" ; options1 =
-""a\\""
-; o=0  ; }")).
-Eval vm_compute in ("<<<M2967>>>" ++ check (runes_of_ascii "packet A {
-  match k as n {
-    [1, ""bb"", 007, ""d"", 5, ""f"", 7, ""h"", 9, ""j""] : B
-    2 : C
-  },
-}")).
-Eval vm_compute in ("<<<M212>>>" ++ check (runes_of_ascii "root packet matchKey{f32a// " ++ [27880; 37322]%N ++ runes_of_ascii "
-`u8 x,` ,	char[]u8x ,
-@calculatedFrom( ""a\""b"" )
-i32 i8i8 , }
-
-")).
-Eval vm_compute in ("<<<M2277>>>" ++ check (runes_of_ascii "options
-{ } options { BodyLength= u16 Header= f64 ; u128 =
-    true true
-    ; } // a // b")).
-Eval vm_compute in ("<<<M2288>>>" ++ check (runes_of_ascii "options
-{ } options { BodyLength= u16 Header= f64 ; u128 =
-    true
-    ; true // a // b")).
-Eval vm_compute in ("<<<M3294>>>" ++ check (runes_of_ascii "MetaData float { float64 charz `
-` , } root packet chars { @rightPad
+Eval vm_compute in ("<<<M3162>>>" ++ check (runes_of_ascii "// a
+MetaData M {} // b
 // c
-( '0' ) Foo , }")).
-Eval vm_compute in ("<<<M3505>>>" ++ check (runes_of_ascii "packet chars { } packet MetaDataX { @tag( 42 ) i16 // c
-string_ , repeat x `say ""hi""` , }")).
-Eval vm_compute in ("<<<M2308>>>" ++ check (runes_of_ascii "options
-{ } options { BodyLength= u16 Header= f64 ; caf" ++ [233]%N ++ runes_of_ascii "_1 =
-    true
-    ; } // a // b")).
-Eval vm_compute in ("<<<M3248>>>" ++ check (runes_of_ascii "packet metadata { Logon { A `" ++ [28040; 24687; 31867; 22411]%N ++ runes_of_ascii "` , tag o , } , zchar len `// not a comment` , }
-// c
-")).
-Eval vm_compute in ("<<<M3211>>>" ++ check (runes_of_ascii "// c
-packet metadata { Logon { A `" ++ [28040; 24687; 31867; 22411]%N ++ runes_of_ascii "` , tag o , } , zchar len `// not a comment` , }")).
-Eval vm_compute in ("<<<M3244>>>" ++ check (runes_of_ascii "packet metadata { Logon { A `" ++ [28040; 24687; 31867; 22411]%N ++ runes_of_ascii "` , tag o , } , zchar len `// not a comment`
-// c
-, }")).
-Eval vm_compute in ("<<<M3432>>>" ++ check (runes_of_ascii "packet o
-// c
-{ repeat Logon uint8x , } options { asx = zchar[ 3 ] stringy = '\x00' }")).
-Eval vm_compute in ("<<<M3464>>>" ++ check (runes_of_ascii "packet o { repeat Logon uint8x , } options { asx = zchar[ 3 ] stringy = '\x00'
-// c
-}")).
-Eval vm_compute in ("<<<M3050>>>" ++ check (runes_of_ascii "packet A {
-    u32 crc @calculatedFrom(""x\
-y""),
-    @calculatedFrom(""x\
-y"") u8 y,
-}")).
-Eval vm_compute in ("<<<M3409>>>" ++ check (runes_of_ascii "MetaData body { i64 pack `it's` , }
-// c
-packet stringy { int16 calculatedFrom , }")).
-Eval vm_compute in ("<<<M1934>>>" ++ check (runes_of_ascii "MetaData
-    u { }  options {
-// c
-// @lengthOf(
-float = int8 ;rootA =false ; As")).
-Eval vm_compute in ("<<<M2919>>>" ++ check (runes_of_ascii "packet A {
-  match k as n {
-    [1, 22, ""c c"", 4, 5, ""f""] : B
-    2 : C
-  },
-}")).
-Eval vm_compute in ("<<<M2289>>>" ++ check (runes_of_ascii "options
-{ } options { BodyLength= u16 Header= f64 ; u128 =
-    true
-    ;")).
-Eval vm_compute in ("<<<M355>>>" ++ check (runes_of_ascii "options { leftPad= int32 // packet A { u8 x, }
-}
-// packet A { u8 x, }
-")).
-Eval vm_compute in ("<<<M4166>>>" ++ check (runes_of_ascii "// " ++ [128512]%N ++ runes_of_ascii " emoji
-options {
-    repeatCount = u32;
-    tag = ' ';
-}// a // b")).
-Eval vm_compute in ("<<<M3008>>>" ++ check (runes_of_ascii "packet A {
-    B b `a
-b`,
-    B `a
-b`,
-    repeat B bs `a
-b`,
-}")).
-Eval vm_compute in ("<<<M474>>>" ++ check (runes_of_ascii "MetaData
-pack {// " ++ [27880; 37322]%N ++ runes_of_ascii "
-string //	t
-float,
-char[]	options1
-, }
-")).
-Eval vm_compute in ("<<<M770>>>" ++ check (runes_of_ascii "MetaData x
-    /// triple
-    {
-int32 // " ++ [27880; 37322]%N ++ runes_of_ascii "
-a1`say ""hi""`	, }
-")).
-Eval vm_compute in ("<<<M190>>>" ++ check (runes_of_ascii "MetaData zchar
-    {  i32 Z9_ `say ""hi""` ,
-    } // a // b")).
-Eval vm_compute in ("<<<M3384>>>" ++ check (runes_of_ascii "packet x { @rightPad ( ) repeat roots Logon `doc`
-// c
-, }")).
-Eval vm_compute in ("<<<M2823>>>" ++ check (runes_of_ascii "as @leftPad char true @leftPad f32 MetaData int16 Logon")).
-Eval vm_compute in ("<<<M3529>>>" ++ check (runes_of_ascii "root packet P
-	{
-
-    repeat char cs, u8 x
-
-,  }
-
-")).
+MetaData N {} // d
+// e")).
 Eval vm_compute in ("<<<M601>>>" ++ check (runes_of_ascii "packet Header
     { msg_type /// triple
 ,
     }")).
-Eval vm_compute in ("<<<M3467>>>" ++ check (runes_of_ascii "// top
-MetaData // c0
-o // c1
-{ // c2
-} // c3
+Eval vm_compute in ("<<<M2260>>>" ++ check (runes_of_ascii "options
+{ } options { BodyLength= u16 Header=")).
+Eval vm_compute in ("<<<M2600>>>" ++ check (runes_of_ascii "packet A { repeat B { C { u8 x, }, D d, }, }")).
+Eval vm_compute in ("<<<M139>>>" ++ check (runes_of_ascii "MetaData
+packetx {  zchar[7
+]u128 , }
 ")).
-Eval vm_compute in ("<<<M2353>>>" ++ check (runes_of_ascii "// c
-packet x { @lengthOf( metadata ) repeat")).
-Eval vm_compute in ("<<<M3841>>>" ++ check (runes_of_ascii "packet Logon 
+Eval vm_compute in ("<<<M3198>>>" ++ check (runes_of_ascii "root packet u128 { chars
+// c
+`it's` , }")).
+Eval vm_compute in ("<<<M2745>>>" ++ check (runes_of_ascii ":4RjM4nCa.YX!, >bNh(Sx""yjArkf-7J.QvXp ")).
+Eval vm_compute in ("<<<M3152>>>" ++ check (runes_of_ascii "options { a = 1 // c b = 2; // d}")).
+Eval vm_compute in ("<<<M1038>>>" ++ check (runes_of_ascii "root packet Logon
+    //
+    { }
+
+")).
+Eval vm_compute in ("<<<M2830>>>" ++ check (runes_of_ascii "ytSP1+_VA;iR~$29D uo*BDXeR,dd`:e4")).
+Eval vm_compute in ("<<<M1218>>>" ++ check (runes_of_ascii "packet  options1
+    { }
+// " ++ [27880; 37322]%N ++ runes_of_ascii "
+")).
+Eval vm_compute in ("<<<M3097>>>" ++ check (runes_of_ascii "packet A {
+ u8 x `d" ++ [8232]%N ++ runes_of_ascii "`, // c" ++ [8232]%N ++ runes_of_ascii "
+}")).
+Eval vm_compute in ("<<<M2586>>>" ++ check (runes_of_ascii "packet A { x @lengthOf(y), }")).
+Eval vm_compute in ("<<<M4252>>>" ++ check (runes_of_ascii "
+MetaData Z9_ 
 {
-string	u 
-`two words`
-,}
-")).
-Eval vm_compute in ("<<<M3193>>>" ++ check (runes_of_ascii "root packet u128 // c
-{ chars `it's` , }")).
-Eval vm_compute in ("<<<M2607>>>" ++ check (runes_of_ascii "packet A { match k as n { 1 : B,, }, }")).
-Eval vm_compute in ("<<<M2803>>>" ++ check (runes_of_ascii "]$_nDRt.|X+""9273[j3IdN7 pv0zmf0e*8[2")).
-Eval vm_compute in ("<<<M4187>>>" ++ check (runes_of_ascii "packet As {
-    stringy i8i8,
-}// c")).
-Eval vm_compute in ("<<<M2613>>>" ++ check (runes_of_ascii "packet A { match k n { 1 : B }, }")).
-Eval vm_compute in ("<<<M3788>>>" ++ check (runes_of_ascii "packet	repeatCount  {
 
     }
 
 ")).
-Eval vm_compute in ("<<<M3067>>>" ++ check (runes_of_ascii "packet A {
- u8 x `d" ++ [12288]%N ++ runes_of_ascii "`, // c" ++ [12288]%N ++ runes_of_ascii "
-}")).
-Eval vm_compute in ("<<<M463>>>" ++ check (runes_of_ascii "packet chars { i64 pack , }
-")).
-Eval vm_compute in ("<<<M3149>>>" ++ check (runes_of_ascii "packet A {
-}// a// b// c
-")).
-Eval vm_compute in ("<<<M2703>>>" ++ check (runes_of_ascii "s>z""[<H>6@7M*]R*[1m;4X~)`")).
-Eval vm_compute in ("<<<M4304>>>" ++ check (runes_of_ascii "
-packet  f32a
-    {
+Eval vm_compute in ("<<<M2757>>>" ++ check (runes_of_ascii "true int32 packet [ match")).
+Eval vm_compute in ("<<<M2710>>>" ++ check (runes_of_ascii "-t" ++ [65533]%N ++ runes_of_ascii " =" ++ [65533; 65533; 65533; 1092; 65533; 65533; 65533; 3; 65533; 0]%N ++ runes_of_ascii "'H" ++ [65533; 65533]%N ++ runes_of_ascii "d" ++ [65533]%N ++ runes_of_ascii "" ++ [65533; 65533]%N)).
+Eval vm_compute in ("<<<M214>>>" ++ check (runes_of_ascii "  root packet charz{}")).
+Eval vm_compute in ("<<<M2714>>>" ++ check ([65533; 0; 65533; 65533]%N ++ runes_of_ascii "r" ++ [65533]%N ++ runes_of_ascii "`" ++ [65533]%N ++ runes_of_ascii "o2e" ++ [65533; 65533]%N ++ runes_of_ascii "r" ++ [2]%N ++ runes_of_ascii "#" ++ [65533; 65533]%N ++ runes_of_ascii "N" ++ [65533]%N)).
+Eval vm_compute in ("<<<M2848>>>" ++ check ([65533; 16; 25; 65533; 1737]%N ++ runes_of_ascii "%)I" ++ [65533; 65533]%N ++ runes_of_ascii "$" ++ [65533; 19; 65533; 65533; 6; 65533; 27; 16]%N)).
+Eval vm_compute in ("<<<M3080>>>" ++ check (runes_of_ascii "packet A {
 }
-
-")).
-Eval vm_compute in ("<<<M2576>>>" ++ check (runes_of_ascii "packet A { x `d` y, }")).
-Eval vm_compute in ("<<<M4275>>>" ++ check (runes_of_ascii "MetaData leftPad {
-}")).
-Eval vm_compute in ("<<<M3474>>>" ++ check (runes_of_ascii "MetaData o // c
-{ }")).
-Eval vm_compute in ("<<<M3085>>>" ++ check (runes_of_ascii "packet A {
-}
-// c" ++ [8192]%N)).
-Eval vm_compute in ("<<<M956>>>" ++ check (runes_of_ascii "packet
-Z9_  {  }
+// c" ++ [5760]%N)).
+Eval vm_compute in ("<<<M887>>>" ++ check (runes_of_ascii "  
+// @lengthOf(
 ")).
 Eval vm_compute in ("<<<M296>>>" ++ check (runes_of_ascii "packet f32a {  }")).
 Eval vm_compute in ("<<<M1869>>>" ++ check (runes_of_ascii "MetaData
     u")).
-Eval vm_compute in ("<<<M3762>>>" ++ check (runes_of_ascii "packet A {
-}")).
-Eval vm_compute in ("<<<M2482>>>" ++ check (runes_of_ascii "@leftPad(")).
-Eval vm_compute in ("<<<M2437>>>" ++ check (runes_of_ascii "zchar[]")).
-Eval vm_compute in ("<<<M2795>>>" ++ check (runes_of_ascii "Hq=" ++ [65533]%N ++ runes_of_ascii "E" ++ [6]%N)).
-Eval vm_compute in ("<<<M3079>>>" ++ check (runes_of_ascii "// c" ++ [5760]%N)).
-Eval vm_compute in ("<<<M2527>>>" ++ check (runes_of_ascii "0x10")).
-Eval vm_compute in ("<<<M2532>>>" ++ check (runes_of_ascii "a-b")).
-Eval vm_compute in ("<<<M2537>>>" ++ check (runes_of_ascii "_1")).
+Eval vm_compute in ("<<<M2763>>>" ++ check ([65533; 65533]%N ++ runes_of_ascii "xu7H\" ++ [65533; 65533; 65533]%N ++ runes_of_ascii "}#")).
+Eval vm_compute in ("<<<M2489>>>" ++ check (runes_of_ascii "@lengthOf")).
+Eval vm_compute in ("<<<M2468>>>" ++ check (runes_of_ascii "matches")).
+Eval vm_compute in ("<<<M2430>>>" ++ check (runes_of_ascii "chars")).
+Eval vm_compute in ("<<<M3119>>>" ++ check (runes_of_ascii "// c" ++ [12]%N)).
+Eval vm_compute in ("<<<M2719>>>" ++ check (runes_of_ascii "D-{a")).
+Eval vm_compute in ("<<<M2679>>>" ++ check (runes_of_ascii """s""")).
+Eval vm_compute in ("<<<M2444>>>" ++ check (runes_of_ascii "u")).
